@@ -1,329 +1,1555 @@
 """C10 - strict classification reports an order-independent consensus of all matches.
 
-Necessary conditions, decided structurally:
+Decision procedure.  The clauses of the property are decided by MEANING: the anchor functions (as the rules see them, i.e. after
+helper expansion N8 and canonicalisation) are evaluated by a small interpreter over a finite model of the taxonomy domain
+(every rooted forest up to a node bound x every sequence of distinct matched taxa, in every order; a fixed forest with
+thresholds x every short list of (reference genome, distance) pairs) and every result is compared with an oracle written from
+the property text.  Nothing of the repository is imported or executed: the interpreter (class `Ev`) walks the parsed AST, the
+domain objects (taxa, genomes, distance vector) are the checker's own, and anything outside the interpreter's vocabulary raises
+`Undecided` (exit 2), never a guess.  Because the functions are decided by what they compute, the spelling of the fold
+(`taxa[0]` / `first, *rest`, `trunk = trunk[i:]` / `del trunk[:i]`, an inline for/try search or a search helper, if/else or
+guard clauses, mutation of the result object or a constructor call with the final values ...) does not matter.
+
+Rules (same ids and clauses as before; the finite-domain evaluation replaces the former text-shape comparison):
 N1 find_matches classifies each genome with the same matching_taxon and records the enumerate index under its matched taxon
-N2 conflict latch: the consensus fold carries a lineage; every SPECIALISING update (lineage := incoming taxon's own lineage)
-   must be control-dependent on a loop-carried flag that is set on every path performing a GENERALISING update
-   (lineage := proper suffix of itself) and never cleared inside the loop.  Without it the fold re-specialises after a
-   conflict and its result depends on the order of the input (genuine defect on the pinned tree, repaired).
-N3 `others` = input taxa not on the final trunk; no-common-ancestor and empty exits
-N4 warnings / failure flags guarded by exactly the right sets; no-match exit first
-N5 primary match: candidates at or below the consensus, nearest by strict < from +inf, same index for genome
+N2 the consensus fold: most specific taxon of a single lineage / lowest common ancestor of the most specific ones, for EVERY order
+   of the input.  In addition the structural conflict-latch rule is kept for folds that carry a lineage: every SPECIALISING
+   update (lineage := incoming taxon's own lineage) must be control-dependent on a loop-carried flag that is set on every path
+   performing a GENERALISING update (lineage := proper suffix of itself, by slice assignment or by deleting the prefix in place)
+   and never cleared or recomputed inside the loop (genuine defect on the pinned tree, repaired).
+N3 `others` = input taxa strictly below the consensus; no-common-ancestor and empty exits; iterable input consumed once
+N4 strict classify(): prediction = consensus of the matched taxa, no-match exit, warning naming the conflicting taxa exactly
+   when there are some, failure flag + error exactly when the matched taxa share no ancestor, default mode unaffected
+N5 primary match: none without consensus; otherwise the first nearest genome among those matched at or below the consensus,
+   built from the same index (genome, distance, matched taxon)
 """
 import ast
+import builtins
+import collections
+import functools
+import itertools
+import math
+import operator
 
-from ..astutil import (u, atoms, guard_map, path_atoms, stmts_in, calls_in, callee, callee_attr, reaching_def, def_value,
-                       PARAM, AMBIGUOUS, get_arg, get_kw, is_none, is_const, assigns_to, block_path, find_parent_map)
+from ..astutil import u, guard_map, path_atoms, stmts_in, is_const, block_path, walk_no_nested, find_parent_map, callee_attr
 from ..report import Undecided
 
 CL = 'gambit.classify'
+TAXON = 'gambit.db.models.Taxon'
+GENOME = 'gambit.db.models.AnnotatedGenome'
 
 
-def _is_own_lineage(v, name):
-    """list(<name>.ancestors(incself=True)) / [*name.ancestors(True)]"""
-    if isinstance(v, ast.Call) and u(v.func) == 'list' and len(v.args) == 1:
-        v = v.args[0]
-    if isinstance(v, ast.Call) and callee_attr(v) == 'ancestors':
-        inc = get_arg(v, 0, 'incself')
-        base = u(v.func.value)
-        return (base == name or name is None) and inc not in (None, Ellipsis) and is_const(inc, True), base
-    return False, None
+# ====================================================================================================================
+# A small interpreter for the Python subset the anchors are written in (finite-domain evaluation, cf. gsa/mini.py which
+# does the same for the integer tables of the .pyx kernels; this one knows loops, exceptions, containers and objects).
+# ====================================================================================================================
+
+class PyExc(Exception):
+    """An exception raised BY THE EVALUATED PROGRAM (carries the real Python exception instance)."""
+
+    def __init__(self, exc, line=None):
+        Exception.__init__(self, repr(exc))
+        self.exc = exc
+        self.line = line
+
+    @property
+    def name(self):
+        return type(self.exc).__name__
 
 
-def check_find_matches(ctx):
-    rep, m = ctx.rep, ctx.model
-    fi = m.func(f'{CL}.find_matches')
-    rep.functions.add(fi.qualname)
-    itr = fi.params()[0]
-    fors = [s for s in fi.node.body if isinstance(s, ast.For)]
-    rep.require(len(fors) == 1, 'find_matches: expected one loop')
-    loop = fors[0]
-    ok = isinstance(loop.iter, ast.Call) and u(loop.iter.func) == 'enumerate' and [u(a) for a in loop.iter.args] == [itr] and isinstance(loop.target, ast.Tuple) \
-        and len(loop.target.elts) == 2 and isinstance(loop.target.elts[1], ast.Tuple) and len(loop.target.elts[1].elts) == 2
-    rep.add('N1', fi.site(loop), 'pairs are enumerated once, index bound with its (genome, distance)', ok, expected=f'for i, (g, d) in enumerate({itr})', found=u(loop.iter) + ' -> ' + u(loop.target), stmt='enumerate')
-    rep.require(ok, 'find_matches: loop shape')
-    i = u(loop.target.elts[0])
-    g, d = (u(e) for e in loop.target.elts[1].elts)
-    mts = [c for c in calls_in(loop) if m.resolve_call(fi, c) == f'{CL}.matching_taxon']
-    okm = len(mts) == 1 and [u(a) for a in mts[0].args] == [f'{g}.taxon', d]
-    rep.add('N1', fi.site(mts[0] if mts else loop), 'each genome matches through the same rule as the default mode, with its own taxon and distance', okm, expected=f'matching_taxon({g}.taxon, {d})',
-            found=[u(c) for c in mts], stmt='match rule')
-    mst = next((s for s in loop.body if isinstance(s, ast.Assign) and mts and s.value is mts[0]), None)
-    mv = u(mst.targets[0]) if mst is not None else None
-    gm = guard_map(fi.node)
-    recs = [c for c in calls_in(loop) if callee_attr(c) == 'append']
-    okr = False
-    found = [u(c) for c in recs]
-    if len(recs) == 1 and mv:
-        c = recs[0]
-        recv = c.func.value
-        okr = [u(a) for a in c.args] == [i] and isinstance(recv, ast.Call) and callee_attr(recv) == 'setdefault' and u(recv.args[0]) == mv \
-            and isinstance(recv.args[1], ast.List) and not recv.args[1].elts
-        st = next(s for s in stmts_in(loop.body) if isinstance(s, ast.Expr) and s.value is c)
-        at = path_atoms(gm[st])
-        okr = okr and at == {('isnot', 'None', mv)}
-        found = (u(c), sorted(at))
-    rep.add('N1', fi.site(recs[0] if recs else loop), 'the index of every genome that matched is recorded under its matched taxon (unmatched genomes skipped)', okr,
-            expected=f'if {mv} is not None: matches.setdefault({mv}, []).append({i})', found=found, stmt='record')
-    fc = m.func(f'{CL}.classify')
-    calls = [c for c in calls_in(fc.node) if m.resolve_call(fc, c) == f'{CL}.find_matches']
-    refs, dists = fc.params()[:2]
-    okc = len(calls) == 1 and isinstance(calls[0].args[0], ast.Call) and u(calls[0].args[0].func) in ('zip_strict', 'zip') \
-        and [u(a) for a in calls[0].args[0].args] == [refs, dists]
-    rep.add('N1', fc.site(calls[0] if calls else None), 'strict mode feeds every (reference genome, its distance) pair, index-aligned', okc, expected=f'find_matches(zip_strict({refs}, {dists}))',
-            found=[u(c) for c in calls], stmt='pairs')
+_BREAK, _CONTINUE = object(), object()
 
 
-def check_consensus(ctx):
+class Frame:
+    __slots__ = ('vars', 'parent', 'fi', 'yields', 'comp')
+
+    def __init__(self, fi, parent=None, comp=False):
+        self.vars = {}
+        self.parent = parent
+        self.fi = fi
+        self.yields = None
+        self.comp = comp          # comprehension scope (walrus targets bind in the enclosing function scope)
+
+
+class Rec:
+    """Instance of a class of the analysed package: either built by the checker (finite model of ORM rows: `open`, unknown
+    attributes are outside the model -> Undecided) or by evaluating an attrs class instantiation (`closed`)."""
+
+    def __init__(self, ev, ci, fields, closed):
+        self._ev, self._ci, self._f, self._closed = ev, ci, fields, closed
+
+    def __eq__(self, other):
+        if self._closed and isinstance(other, Rec) and other._ci is self._ci:     # attrs: field-wise equality
+            return self._f == other._f
+        return self is other
+
+    def __ne__(self, other):
+        return not self.__eq__(other)
+
+    def __hash__(self):
+        if self._closed:
+            raise TypeError(f"unhashable type: '{self._ci.name}'")
+        return id(self)
+
+    def __repr__(self):
+        m = self._ev.m.find_method(self._ci.qualname, '__repr__')
+        if m is not None and not self._ev.in_repr:
+            self._ev.in_repr = True
+            try:
+                return str(self._ev.call_func(FuncV(self._ev, m, None, self), (), {}))
+            finally:
+                self._ev.in_repr = False
+        return f'<{self._ci.name} object>'
+
+    __str__ = __repr__
+
+
+class FuncV:
+    """A function of the analysed package (or a nested def / lambda) as a callable value."""
+
+    def __init__(self, ev, fi, closure=None, bound=None, node=None):
+        self.ev, self.fi, self.closure, self.bound, self.node = ev, fi, closure, bound, node or fi.node
+
+    def __call__(self, *args, **kwargs):
+        return self.ev.call_func(self, args, kwargs)
+
+
+class ClassV:
+    def __init__(self, ev, ci):
+        self.ev, self.ci = ev, ci
+
+    def __call__(self, *args, **kwargs):
+        return self.ev.instantiate(self.ci, args, kwargs)
+
+
+class ExtV:
+    """A name of an external library that is not in the table of modelled externals: may be passed around, not used."""
+
+    def __init__(self, dotted):
+        self.dotted = dotted
+
+
+class NDArr:
+    """One-dimensional float array (the distance vector): only the operations below are modelled."""
+
+    def __init__(self, values):
+        self.v = [float(x) for x in values]
+
+    def __len__(self):
+        return len(self.v)
+
+    def __iter__(self):
+        return iter(self.v)
+
+    def __getitem__(self, i):
+        if isinstance(i, slice):
+            return NDArr(self.v[i])
+        if isinstance(i, bool) or not isinstance(i, int):
+            raise Undecided(f'evaluator: ndarray index of type {type(i).__name__} is not modelled')
+        return self.v[i]
+
+    def __bool__(self):
+        raise Undecided('evaluator: truth value of an ndarray is not modelled')
+
+    def __eq__(self, other):
+        raise Undecided('evaluator: ndarray comparison is not modelled')
+
+    __hash__ = None
+
+
+def _argmin(a, *rest, **kw):
+    if rest or kw:
+        raise Undecided('evaluator: numpy.argmin with extra arguments is not modelled')
+    v = list(a)
+    if not v:
+        raise ValueError('attempt to get argmin of an empty sequence')
+    return min(range(len(v)), key=lambda i: v[i])      # first minimum (numpy semantics, no NaN in the model)
+
+
+def _zip_strict(*its):
+    return zip(*its, strict=True)
+
+
+# externals with a native model (trusted base): dotted name -> value
+NATIVES = {
+    'numpy.argmin': _argmin, 'numpy.inf': float('inf'), 'math.inf': float('inf'), 'math.isinf': math.isinf,
+    'gambit.util.misc.zip_strict': _zip_strict,
+    'collections.defaultdict': collections.defaultdict, 'collections.OrderedDict': collections.OrderedDict,
+    'itertools.chain': itertools.chain, 'itertools.islice': itertools.islice, 'itertools.takewhile': itertools.takewhile,
+    'itertools.dropwhile': itertools.dropwhile, 'functools.reduce': functools.reduce, 'operator.itemgetter': operator.itemgetter,
+}
+
+_NATIVE_TYPES = (list, tuple, dict, set, frozenset, str, int, float, bool, type(None), type({}.keys()), type({}.values()),
+                 type({}.items()), range)
+
+_BINOPS = {ast.Add: operator.add, ast.Sub: operator.sub, ast.Mult: operator.mul, ast.Div: operator.truediv, ast.FloorDiv: operator.floordiv,
+           ast.Mod: operator.mod, ast.Pow: operator.pow, ast.BitAnd: operator.and_, ast.BitOr: operator.or_, ast.BitXor: operator.xor,
+           ast.LShift: operator.lshift, ast.RShift: operator.rshift}
+_CMPOPS = {ast.Eq: operator.eq, ast.NotEq: operator.ne, ast.Lt: operator.lt, ast.LtE: operator.le, ast.Gt: operator.gt, ast.GtE: operator.ge,
+           ast.Is: operator.is_, ast.IsNot: operator.is_not, ast.In: lambda a, b: a in b, ast.NotIn: lambda a, b: a not in b}
+_EXC_NAMES = ('Exception', 'BaseException', 'ValueError', 'KeyError', 'IndexError', 'TypeError', 'AttributeError', 'StopIteration', 'AssertionError',
+              'LookupError', 'RuntimeError', 'ZeroDivisionError', 'NotImplementedError', 'ArithmeticError', 'NameError')
+
+
+class Ev:
+    BUDGET = 200000
+
+    def __init__(self, model):
+        self.m = model
+        self.steps = 0
+        self.evaluations = 0
+        self._modframes = {}
+        self.in_repr = False
+        self._attrs_cache = {}
+        self._sigs = {}
+        self._eh, self._sh, self._meth = {}, {}, {}
+        self.watch = {}           # qualname -> callback(args tuple) -> args tuple: observation of calls between anchors
+        b = {n: getattr(builtins, n) for n in (
+            'list', 'tuple', 'set', 'frozenset', 'dict', 'len', 'enumerate', 'zip', 'range', 'sorted', 'reversed', 'min', 'max', 'sum', 'any',
+            'all', 'next', 'iter', 'float', 'int', 'str', 'bool', 'abs', 'map', 'filter', 'repr', 'round', 'divmod') + _EXC_NAMES}
+        b['isinstance'] = self._isinstance
+        b['type'] = lambda v: ClassV(self, v._ci) if isinstance(v, Rec) else type(v)
+        b['True'], b['False'], b['None'] = True, False, None
+        self.builtins = b
+
+    # ------------------------------------------------------------------------------------------------ entry points
+    def run(self, fi, *args, **kwargs):
+        """Evaluate package function `fi` on model arguments.  Returns ('ok', value) or ('raise', PyExc)."""
+        self.steps = 0
+        self.evaluations += 1
+        try:
+            return 'ok', self.call_func(FuncV(self, fi), args, kwargs)
+        except PyExc as e:
+            return 'raise', e
+
+    def tick(self, node):
+        self.steps += 1
+        if self.steps > self.BUDGET:
+            raise Undecided(f'evaluator: no result within {self.BUDGET} steps (line {getattr(node, "lineno", "?")}): non-terminating loop on a finite input?')
+
+    # ------------------------------------------------------------------------------------------------ names
+    def _isinstance(self, v, c):
+        cs = c if isinstance(c, tuple) else (c,)
+        for k in cs:
+            if isinstance(k, ClassV):
+                if isinstance(v, Rec) and k.ci.qualname in self.m.mro(v._ci.qualname):
+                    return True
+            elif isinstance(k, type):
+                if isinstance(v, k):
+                    return True
+            else:
+                raise Undecided('evaluator: isinstance() against a class that is not modelled')
+        return False
+
+    def dotted_value(self, dotted):
+        if dotted in NATIVES:
+            return NATIVES[dotted]
+        c = self.m.canonical(dotted)
+        if c in NATIVES:
+            return NATIVES[c]
+        if c in self.m.functions:
+            return FuncV(self, self.m.functions[c])
+        if c in self.m.classes:
+            return ClassV(self, self.m.classes[c])
+        if c in self.m.modules:
+            return ExtV(c)
+        if '.' in c:
+            head, attr = c.rsplit('.', 1)
+            if head in self.m.modules and attr in self.m.modules[head].assigns:
+                return self.module_const(self.m.modules[head], attr)
+        return ExtV(c)
+
+    def module_const(self, mod, name):
+        key = (mod.name, name)
+        if key not in self._modframes:
+            fr = Frame(_ModFI(mod))
+            self._modframes[key] = self.ev(mod.assigns[name], fr)
+        return self._modframes[key]
+
+    def lookup(self, name, fr, node):
+        f = fr
+        while f is not None:
+            if name in f.vars:
+                return f.vars[name]
+            f = f.parent
+        mod = fr.fi.module
+        if name in mod.functions:
+            return FuncV(self, mod.functions[name])
+        if name in mod.classes:
+            return ClassV(self, mod.classes[name])
+        if name in mod.imports:
+            return self.dotted_value(mod.imports[name])
+        if name in mod.assigns:
+            return self.module_const(mod, name)
+        if name in self.builtins:
+            return self.builtins[name]
+        raise PyExc(NameError(f"name '{name}' is not defined"), getattr(node, 'lineno', None))
+
+    # ------------------------------------------------------------------------------------------------ calls
+    def native(self, f, args, kwargs, node):
+        try:
+            return f(*args, **kwargs)
+        except (PyExc, Undecided):
+            raise
+        except RecursionError:
+            raise
+        except Exception as e:      # the library operation itself failed: that is the program's exception
+            raise PyExc(e, getattr(node, 'lineno', None))
+
+    def _sig(self, node):
+        sig = self._sigs.get(node)
+        if sig is None:
+            a = node.args
+            pos = [x.arg for x in a.posonlyargs + a.args]
+            kwo = [x.arg for x in a.kwonlyargs]
+            defaults = [None] * (len(pos) - len(a.defaults)) + list(a.defaults)
+            is_gen = not isinstance(node, ast.Lambda) and any(isinstance(x, (ast.Yield, ast.YieldFrom)) for x in walk_no_nested(node))
+            if is_gen:
+                # generator function: evaluated eagerly (sound for the pure, finite generators of this domain; a body with
+                # stores to shared state could observe the difference and is refused)
+                for x in walk_no_nested(node):
+                    if isinstance(x, (ast.Assign, ast.AugAssign)) and any(not isinstance(t, (ast.Name, ast.Tuple, ast.List)) for t in (x.targets if isinstance(x, ast.Assign) else [x.target])):
+                        raise Undecided(f'evaluator: generator {node.name} stores to shared state; lazy evaluation is not modelled')
+            sig = self._sigs[node] = (pos, {x.arg for x in a.posonlyargs}, kwo, list(zip(pos, defaults)) + list(zip(kwo, a.kw_defaults)),
+                                      a.vararg.arg if a.vararg else None, a.kwarg.arg if a.kwarg else None, is_gen)
+        return sig
+
+    def call_func(self, fv, args, kwargs):
+        node = fv.node
+        pos, posonly, kwo, defaults, vararg, kwarg, is_gen = self._sig(node)
+        fr = Frame(fv.fi, fv.closure)
+        if self.watch and node is fv.fi.node and fv.fi.qualname in self.watch:
+            args = self.watch[fv.fi.qualname](tuple(args))
+        if fv.bound is not None:
+            args = (fv.bound,) + tuple(args)
+        if len(args) > len(pos) and vararg is None:
+            raise PyExc(TypeError(f'{getattr(node, "name", "<lambda>")}() takes {len(pos)} positional arguments but {len(args)} were given'))
+        vs = fr.vars
+        for n, v in zip(pos, args):
+            vs[n] = v
+        if vararg is not None:
+            vs[vararg] = tuple(args[len(pos):])
+        if kwargs or kwarg is not None:
+            extra = {}
+            for k, v in kwargs.items():
+                if k in vs and k in pos:
+                    raise PyExc(TypeError(f"got multiple values for argument '{k}'"))
+                if (k in pos and k not in posonly) or k in kwo:
+                    vs[k] = v
+                elif kwarg is not None:
+                    extra[k] = v
+                else:
+                    raise PyExc(TypeError(f"got an unexpected keyword argument '{k}'"))
+            if kwarg is not None:
+                vs[kwarg] = extra
+        for n, d in defaults:
+            if n not in vs:
+                if d is None:
+                    raise PyExc(TypeError(f"missing required argument '{n}'"))
+                vs[n] = self.ev(d, Frame(fv.fi, fv.closure))
+        if isinstance(node, ast.Lambda):
+            return self.ev(node.body, fr)
+        if is_gen:
+            fr.yields = []
+            self.block(node.body, fr)
+            return iter(fr.yields)
+        r = self.block(node.body, fr)
+        if isinstance(r, tuple):
+            return r[1]
+        return None
+
+    # ------------------------------------------------------------------------------------------------ classes
+    def attrs_fields(self, ci):
+        """[(name, default_expr|None, factory_expr|None, default_method|None)] of an attrs class, in definition order."""
+        if ci.qualname in self._attrs_cache:
+            return self._attrs_cache[ci.qualname]
+        decos = [u(d.func) if isinstance(d, ast.Call) else u(d) for d in ci.node.decorator_list]
+        if not any(d.split('.')[-1] in ('attrs', 's', 'define', 'mutable') for d in decos):
+            raise Undecided(f'evaluator: instantiation of {ci.qualname} (not an attrs class, {decos}) is not modelled')
+        if len(self.m.mro(ci.qualname)) > 1:
+            raise Undecided(f'evaluator: attrs class {ci.qualname} with base classes is not modelled')
+        fields = []
+        for s in ci.node.body:
+            if isinstance(s, ast.AnnAssign) and isinstance(s.target, ast.Name):
+                v = s.value
+                if isinstance(v, ast.Call) and u(v.func).split('.')[-1] in ('attrib', 'ib', 'field'):
+                    kws = {k.arg: k.value for k in v.keywords}
+                    unknown = set(kws) - {'default', 'factory', 'repr', 'eq', 'order', 'hash', 'type', 'metadata'}
+                    if unknown or v.args:
+                        raise Undecided(f'evaluator: attrs field {ci.name}.{s.target.id} uses {sorted(unknown) or "positional arguments"}: not modelled')
+                    fields.append([s.target.id, kws.get('default'), kws.get('factory'), None])
+                elif v is None:
+                    fields.append([s.target.id, None, None, None])
+                else:
+                    fields.append([s.target.id, v, None, None])
+        for s in ci.node.body:
+            if isinstance(s, ast.FunctionDef):
+                for d in s.decorator_list:
+                    if isinstance(d, ast.Attribute) and d.attr == 'default' and isinstance(d.value, ast.Name):
+                        for f in fields:
+                            if f[0] == d.value.id:
+                                f[3] = ci.methods[s.name]
+        self._attrs_cache[ci.qualname] = fields
+        return fields
+
+    def instantiate(self, ci, args, kwargs):
+        fields = self.attrs_fields(ci)
+        rec = Rec(self, ci, {}, True)
+        names = [f[0] for f in fields]
+        if len(args) > len(names):
+            raise PyExc(TypeError(f'{ci.name}() takes {len(names)} positional arguments but {len(args)} were given'))
+        given = dict(zip(names, args))
+        for k, v in kwargs.items():
+            if k not in names or k in given:
+                raise PyExc(TypeError(f"{ci.name}() got an unexpected or repeated keyword argument '{k}'"))
+            given[k] = v
+        fr = Frame(_ModFI(ci.module))
+        for name, default, factory, meth in fields:
+            if name in given:
+                rec._f[name] = given[name]
+            elif meth is not None:
+                rec._f[name] = self.call_func(FuncV(self, meth, None, rec), (), {})
+            elif factory is not None:
+                rec._f[name] = self.call(self.ev(factory, fr), [], {}, factory)
+            elif default is not None:
+                rec._f[name] = self.ev(default, fr)
+            else:
+                raise PyExc(TypeError(f"{ci.name}() missing required argument '{name}'"))
+        return rec
+
+    def getattr(self, v, attr, node):
+        if isinstance(v, Rec):
+            if attr in v._f:
+                return v._f[attr]
+            mk = (v._ci.qualname, attr)
+            if mk not in self._meth:
+                self._meth[mk] = self.m.find_method(v._ci.qualname, attr)
+            meth = self._meth[mk]
+            if meth is not None:
+                decos = [u(d) for d in meth.decorators]
+                if not decos:
+                    return FuncV(self, meth, None, v)
+                if decos == ['property']:
+                    return self.call_func(FuncV(self, meth, None, v), (), {})
+                if decos == ['staticmethod']:
+                    return FuncV(self, meth)
+                raise Undecided(f'evaluator: {v._ci.name}.{attr} is decorated with {decos}: not modelled')
+            if v._closed:
+                raise PyExc(AttributeError(f"'{v._ci.name}' object has no attribute '{attr}'"), getattr(node, 'lineno', None))
+            raise Undecided(f'evaluator: attribute {v._ci.name}.{attr} is not part of the finite model')
+        if isinstance(v, ExtV):
+            return self.dotted_value(f'{v.dotted}.{attr}')
+        if isinstance(v, ClassV):
+            if attr in ('__name__', '__qualname__'):
+                return v.ci.name
+            raise Undecided(f'evaluator: class attribute {v.ci.name}.{attr} is not modelled')
+        if isinstance(v, NDArr):
+            if attr == 'argmin':
+                return lambda *a, **k: _argmin(v, *a, **k)
+            if attr == 'tolist':
+                return lambda: list(v.v)
+            if attr == 'shape':
+                return (len(v),)
+            raise Undecided(f'evaluator: ndarray.{attr} is not modelled')
+        if attr.startswith('__'):
+            raise Undecided(f'evaluator: special attribute {attr} is not modelled')
+        if isinstance(v, _NATIVE_TYPES) or hasattr(v, '__next__'):
+            try:
+                return getattr(v, attr)
+            except AttributeError as e:
+                raise PyExc(e, getattr(node, 'lineno', None))
+        raise Undecided(f'evaluator: attribute {attr} of a {type(v).__name__} value is not modelled')
+
+    def call(self, f, args, kwargs, node):
+        if isinstance(f, (FuncV, ClassV)):
+            return f(*args, **kwargs)
+        if isinstance(f, ExtV):
+            raise Undecided(f'evaluator: external callable {f.dotted} is not modelled')
+        if isinstance(f, Rec):
+            raise Undecided(f'evaluator: calling an instance of {f._ci.name} is not modelled')
+        if callable(f):
+            return self.native(f, args, kwargs, node)
+        raise PyExc(TypeError(f"'{type(f).__name__}' object is not callable"), getattr(node, 'lineno', None))
+
+    # ------------------------------------------------------------------------------------------------ expressions
+    def truth(self, v):
+        if v is True or v is False or v is None:
+            return bool(v)
+        if isinstance(v, Rec):
+            mk = (v._ci.qualname, '__bool__')
+            if mk not in self._meth:
+                self._meth[mk] = self.m.find_method(v._ci.qualname, '__bool__') or self.m.find_method(v._ci.qualname, '__len__')
+            if self._meth[mk] is not None:
+                raise Undecided(f'evaluator: {v._ci.name}.__bool__/__len__ is not modelled')
+            return True
+        if isinstance(v, (FuncV, ClassV)):
+            return True
+        if isinstance(v, ExtV):
+            raise Undecided(f'evaluator: truth value of external {v.dotted}')
+        return bool(v)
+
+    def ev(self, e, fr):
+        h = self._eh.get(type(e))
+        if h is None:
+            h = self._eh[type(e)] = getattr(self, 'e_' + type(e).__name__, self._e_unknown)
+        return h(e, fr)
+
+    def _e_unknown(self, e, fr):
+        raise Undecided(f'evaluator: expression `{u(e)[:60]}` ({type(e).__name__}) is outside the vocabulary')
+
+    def e_Constant(self, e, fr):
+        return e.value
+
+    def e_Name(self, e, fr):
+        return self.lookup(e.id, fr, e)
+
+    def e_Attribute(self, e, fr):
+        return self.getattr(self.ev(e.value, fr), e.attr, e)
+
+    def e_Slice(self, e, fr):
+        return slice(*(None if x is None else self.ev(x, fr) for x in (e.lower, e.upper, e.step)))
+
+    def e_Subscript(self, e, fr):
+        v = self.ev(e.value, fr)
+        i = self.ev(e.slice, fr)
+        if isinstance(v, Rec) or isinstance(v, (FuncV, ClassV, ExtV)):
+            raise Undecided(f'evaluator: subscript of {u(e.value)} is not modelled')
+        return self.native(operator.getitem, (v, i), {}, e)
+
+    def e_Tuple(self, e, fr):
+        return tuple(self.seq(e.elts, fr))
+
+    def e_List(self, e, fr):
+        return self.seq(e.elts, fr)
+
+    def e_Set(self, e, fr):
+        return self.native(set, (self.seq(e.elts, fr),), {}, e)
+
+    def seq(self, elts, fr):
+        out = []
+        for x in elts:
+            if isinstance(x, ast.Starred):
+                out.extend(self.native(list, (self.ev(x.value, fr),), {}, x))
+            else:
+                out.append(self.ev(x, fr))
+        return out
+
+    def e_Dict(self, e, fr):
+        d = {}
+        for k, v in zip(e.keys, e.values):
+            if k is None:
+                d.update(self.ev(v, fr))
+            else:
+                kk = self.ev(k, fr)
+                self.native(d.__setitem__, (kk, self.ev(v, fr)), {}, e)
+        return d
+
+    def e_UnaryOp(self, e, fr):
+        v = self.ev(e.operand, fr)
+        if isinstance(e.op, ast.Not):
+            return not self.truth(v)
+        if isinstance(v, (Rec, NDArr, ExtV)):
+            raise Undecided(f'evaluator: `{u(e)}` is not modelled')
+        f = {ast.USub: operator.neg, ast.UAdd: operator.pos, ast.Invert: operator.invert}[type(e.op)]
+        return self.native(f, (v,), {}, e)
+
+    def e_BinOp(self, e, fr):
+        l, r = self.ev(e.left, fr), self.ev(e.right, fr)
+        if isinstance(l, (Rec, NDArr, ExtV)) or isinstance(r, (Rec, NDArr, ExtV)) or type(e.op) not in _BINOPS:
+            raise Undecided(f'evaluator: `{u(e)[:60]}` is not modelled')
+        return self.native(_BINOPS[type(e.op)], (l, r), {}, e)
+
+    def e_BoolOp(self, e, fr):
+        is_and = isinstance(e.op, ast.And)
+        v = None
+        for x in e.values:
+            v = self.ev(x, fr)
+            if self.truth(v) != is_and:
+                return v
+        return v
+
+    def e_Compare(self, e, fr):
+        left = self.ev(e.left, fr)
+        for op, rx in zip(e.ops, e.comparators):
+            right = self.ev(rx, fr)
+            if isinstance(op, (ast.Is, ast.IsNot)):
+                res = (left is right) == isinstance(op, ast.Is)
+            else:
+                if isinstance(left, (NDArr, ExtV)) or isinstance(right, ExtV) or (isinstance(right, NDArr) and not isinstance(op, (ast.In, ast.NotIn))):
+                    raise Undecided(f'evaluator: comparison `{u(e)[:60]}` is not modelled')
+                if isinstance(op, (ast.Lt, ast.LtE, ast.Gt, ast.GtE)) and (isinstance(left, Rec) or isinstance(right, Rec)):
+                    raise Undecided(f'evaluator: ordering of {u(e)[:60]} is not modelled')
+                res = self.native(_CMPOPS[type(op)], (left, right), {}, e)
+            if not self.truth(res):
+                return False
+            left = right
+        return True
+
+    def e_IfExp(self, e, fr):
+        return self.ev(e.body, fr) if self.truth(self.ev(e.test, fr)) else self.ev(e.orelse, fr)
+
+    def e_NamedExpr(self, e, fr):
+        v = self.ev(e.value, fr)
+        f = fr
+        while f.parent is not None and f.comp:
+            f = f.parent
+        f.vars[e.target.id] = v
+        return v
+
+    def e_Lambda(self, e, fr):
+        return FuncV(self, fr.fi, fr, None, e)
+
+    def e_JoinedStr(self, e, fr):
+        out = []
+        for p in e.values:
+            if isinstance(p, ast.Constant):
+                out.append(p.value)
+            else:
+                v = self.ev(p.value, fr)
+                if p.conversion == ord('r'):
+                    v = self.native(repr, (v,), {}, p)
+                elif p.conversion == ord('s'):
+                    v = self.native(str, (v,), {}, p)
+                elif p.conversion != -1:
+                    raise Undecided('evaluator: !a conversion is not modelled')
+                spec = self.e_JoinedStr(p.format_spec, fr) if p.format_spec is not None else ''
+                out.append(self.native(format, (v, spec), {}, p))
+        return ''.join(out)
+
+    def e_Call(self, e, fr):
+        f = self.ev(e.func, fr)
+        args = self.seq(e.args, fr)
+        kwargs = {}
+        for k in e.keywords:
+            if k.arg is None:
+                kwargs.update(self.ev(k.value, fr))
+            else:
+                kwargs[k.arg] = self.ev(k.value, fr)
+        return self.call(f, args, kwargs, e)
+
+    # comprehensions: a child scope per comprehension; generator expressions stay lazy (a real Python generator)
+    def _comp(self, gens, fr, emit):
+        def rec(i, sc):
+            if i == len(gens):
+                yield emit(sc)
+                return
+            g = gens[i]
+            if g.is_async:
+                raise Undecided('evaluator: async comprehension')
+            it = self.iterate(self.ev(g.iter, sc if i else fr), g.iter)
+            for x in it:
+                self.tick(g.iter)
+                self.bind(g.target, x, sc)
+                if all(self.truth(self.ev(c, sc)) for c in g.ifs):
+                    yield from rec(i + 1, sc)
+        sc = Frame(fr.fi, fr, True)
+        return rec(0, sc)
+
+    def e_ListComp(self, e, fr):
+        return list(self._comp(e.generators, fr, lambda sc: self.ev(e.elt, sc)))
+
+    def e_SetComp(self, e, fr):
+        return self.native(set, (list(self._comp(e.generators, fr, lambda sc: self.ev(e.elt, sc))),), {}, e)
+
+    def e_DictComp(self, e, fr):
+        return self.native(dict, (list(self._comp(e.generators, fr, lambda sc: (self.ev(e.key, sc), self.ev(e.value, sc)))),), {}, e)
+
+    def e_GeneratorExp(self, e, fr):
+        first = self.iterate(self.ev(e.generators[0].iter, fr), e.generators[0].iter)    # outermost iterable is evaluated eagerly
+        gens = list(e.generators)
+
+        def lazy():
+            sc = Frame(fr.fi, fr, True)
+
+            def rec(i):
+                if i == len(gens):
+                    yield self.ev(e.elt, sc)
+                    return
+                g = gens[i]
+                it = first if i == 0 else self.iterate(self.ev(g.iter, sc), g.iter)
+                for x in it:
+                    self.tick(g.iter)
+                    self.bind(g.target, x, sc)
+                    if all(self.truth(self.ev(c, sc)) for c in g.ifs):
+                        yield from rec(i + 1)
+            yield from rec(0)
+        return lazy()
+
+    def iterate(self, v, node):
+        if isinstance(v, (Rec, FuncV, ClassV, ExtV)):
+            raise Undecided(f'evaluator: iteration over `{u(node)[:40]}` is not modelled')
+        return self.native(iter, (v,), {}, node)
+
+    # ------------------------------------------------------------------------------------------------ statements
+    def bind(self, t, v, fr):
+        if isinstance(t, ast.Name):
+            fr.vars[t.id] = v
+        elif isinstance(t, (ast.Tuple, ast.List)):
+            vals = self.native(list, (v,), {}, t)
+            stars = [i for i, x in enumerate(t.elts) if isinstance(x, ast.Starred)]
+            if stars:
+                k = stars[0]
+                after = len(t.elts) - k - 1
+                if len(vals) < len(t.elts) - 1:
+                    raise PyExc(ValueError(f'not enough values to unpack (expected at least {len(t.elts) - 1}, got {len(vals)})'), t.lineno)
+                for x, y in zip(t.elts[:k], vals[:k]):
+                    self.bind(x, y, fr)
+                self.bind(t.elts[k].value, vals[k:len(vals) - after], fr)
+                for x, y in zip(t.elts[k + 1:], vals[len(vals) - after:]):
+                    self.bind(x, y, fr)
+            else:
+                if len(vals) != len(t.elts):
+                    raise PyExc(ValueError(f'unpack: expected {len(t.elts)} values, got {len(vals)}'), t.lineno)
+                for x, y in zip(t.elts, vals):
+                    self.bind(x, y, fr)
+        elif isinstance(t, ast.Attribute):
+            o = self.ev(t.value, fr)
+            if not isinstance(o, Rec):
+                raise Undecided(f'evaluator: store to attribute `{u(t)}` of a {type(o).__name__} is not modelled')
+            o._f[t.attr] = v
+        elif isinstance(t, ast.Subscript):
+            o = self.ev(t.value, fr)
+            if isinstance(o, (Rec, NDArr, ExtV)):
+                raise Undecided(f'evaluator: store to `{u(t)}` is not modelled')
+            self.native(operator.setitem, (o, self.ev(t.slice, fr), v), {}, t)
+        else:
+            raise Undecided(f'evaluator: assignment target `{u(t)}`')
+
+    def block(self, stmts, fr):
+        sh = self._sh
+        for s in stmts:
+            h = sh.get(type(s))
+            if h is None:
+                h = sh[type(s)] = getattr(self, 's_' + type(s).__name__, self._s_unknown)
+            r = h(s, fr)
+            if r is not None:
+                return r
+        return None
+
+    def _s_unknown(self, s, fr):
+        raise Undecided(f'evaluator: statement `{u(s)[:60]}` ({type(s).__name__}) is outside the vocabulary')
+
+    def s_Expr(self, s, fr):
+        self.tick(s)
+        if isinstance(s.value, ast.Yield):
+            if fr.yields is None:
+                raise Undecided('evaluator: yield outside a generator body')
+            fr.yields.append(None if s.value.value is None else self.ev(s.value.value, fr))
+        elif isinstance(s.value, ast.YieldFrom):
+            fr.yields.extend(self.iterate(self.ev(s.value.value, fr), s.value))
+        else:
+            self.ev(s.value, fr)
+
+    def s_Assign(self, s, fr):
+        self.tick(s)
+        v = self.ev(s.value, fr)
+        for t in s.targets:
+            self.bind(t, v, fr)
+
+    def s_AnnAssign(self, s, fr):
+        self.tick(s)
+        if s.value is not None:
+            self.bind(s.target, self.ev(s.value, fr), fr)
+
+    def s_AugAssign(self, s, fr):
+        self.tick(s)
+        load = ast.copy_location(type(s.target)(**{**{k: getattr(s.target, k) for k in s.target._fields}, 'ctx': ast.Load()}), s.target)
+        cur = self.ev(load, fr)
+        val = self.ev(s.value, fr)
+        if isinstance(cur, (Rec, NDArr, ExtV)) or type(s.op) not in _BINOPS:
+            raise Undecided(f'evaluator: `{u(s)[:60]}` is not modelled')
+        if isinstance(cur, list) and isinstance(s.op, ast.Add):
+            self.native(cur.extend, (val,), {}, s)          # in-place, aliasing preserved
+            new = cur
+        elif isinstance(cur, set) and isinstance(s.op, (ast.BitOr, ast.BitAnd, ast.Sub)):
+            self.native({ast.BitOr: cur.update, ast.BitAnd: cur.intersection_update, ast.Sub: cur.difference_update}[type(s.op)], (val,), {}, s)
+            new = cur
+        else:
+            new = self.native(_BINOPS[type(s.op)], (cur, val), {}, s)
+        self.bind(s.target, new, fr)
+
+    def s_Pass(self, s, fr):
+        return None
+
+    def s_Return(self, s, fr):
+        self.tick(s)
+        return ('ret', None if s.value is None else self.ev(s.value, fr))
+
+    def s_Break(self, s, fr):
+        return _BREAK
+
+    def s_Continue(self, s, fr):
+        return _CONTINUE
+
+    def s_If(self, s, fr):
+        self.tick(s)
+        return self.block(s.body if self.truth(self.ev(s.test, fr)) else s.orelse, fr)
+
+    def s_While(self, s, fr):
+        while True:
+            self.tick(s)
+            if not self.truth(self.ev(s.test, fr)):
+                break
+            r = self.block(s.body, fr)
+            if r is _BREAK:
+                return None
+            if isinstance(r, tuple):
+                return r
+        return self.block(s.orelse, fr)
+
+    def s_For(self, s, fr):
+        it = self.iterate(self.ev(s.iter, fr), s.iter)
+        while True:
+            self.tick(s)
+            try:
+                x = next(it)
+            except StopIteration:
+                break
+            except (PyExc, Undecided):
+                raise
+            except Exception as e:
+                raise PyExc(e, s.lineno)
+            self.bind(s.target, x, fr)
+            r = self.block(s.body, fr)
+            if r is _BREAK:
+                return None
+            if isinstance(r, tuple):
+                return r
+        return self.block(s.orelse, fr)
+
+    def s_Assert(self, s, fr):
+        self.tick(s)
+        if not self.truth(self.ev(s.test, fr)):
+            raise PyExc(AssertionError(None if s.msg is None else self.ev(s.msg, fr)), s.lineno)
+
+    def s_Raise(self, s, fr):
+        self.tick(s)
+        if s.exc is None:
+            cur = fr.vars.get('$exc')
+            if cur is None:
+                raise Undecided('evaluator: bare raise outside a handler')
+            raise cur
+        v = self.ev(s.exc, fr)
+        if isinstance(v, type) and issubclass(v, BaseException):
+            v = v()
+        if not isinstance(v, BaseException):
+            raise Undecided(f'evaluator: raise of `{u(s.exc)[:40]}` is not modelled')
+        raise PyExc(v, s.lineno)
+
+    def s_Try(self, s, fr):
+        self.tick(s)
+        try:
+            try:
+                r = self.block(s.body, fr)
+            except PyExc as e:
+                for h in s.handlers:
+                    if h.type is None:
+                        match = True
+                    else:
+                        t = self.ev(h.type, fr)
+                        ts = t if isinstance(t, tuple) else (t,)
+                        if not all(isinstance(x, type) and issubclass(x, BaseException) for x in ts):
+                            raise Undecided(f'evaluator: except clause `{u(h.type)}` is not modelled')
+                        match = isinstance(e.exc, ts)
+                    if match:
+                        if h.name:
+                            fr.vars[h.name] = e.exc
+                        saved = fr.vars.get('$exc')
+                        fr.vars['$exc'] = e
+                        try:
+                            return self.block(h.body, fr)
+                        finally:
+                            fr.vars['$exc'] = saved
+                raise
+            else:
+                if r is not None:
+                    return r
+                return self.block(s.orelse, fr)
+        finally:
+            if s.finalbody:
+                r2 = self.block(s.finalbody, fr)
+                if r2 is not None:
+                    raise Undecided('evaluator: control transfer out of a finally block is not modelled')
+
+    def s_Delete(self, s, fr):
+        self.tick(s)
+        for t in s.targets:
+            if isinstance(t, ast.Name):
+                if t.id not in fr.vars:
+                    raise PyExc(NameError(t.id), s.lineno)
+                del fr.vars[t.id]
+            elif isinstance(t, ast.Subscript):
+                o = self.ev(t.value, fr)
+                if isinstance(o, (Rec, NDArr, ExtV)):
+                    raise Undecided(f'evaluator: `{u(s)}` is not modelled')
+                self.native(operator.delitem, (o, self.ev(t.slice, fr)), {}, s)
+            else:
+                raise Undecided(f'evaluator: `{u(s)}` is not modelled')
+
+    def s_ImportFrom(self, s, fr):
+        if s.level or s.module is None:
+            raise Undecided(f'evaluator: relative import inside a function body (`{u(s)}`) is not modelled')
+        for a in s.names:
+            fr.vars[a.asname or a.name] = self.dotted_value(f'{s.module}.{a.name}')
+
+    def s_Import(self, s, fr):
+        for a in s.names:
+            if a.asname:
+                fr.vars[a.asname] = self.dotted_value(a.name)
+            else:
+                fr.vars[a.name.split('.')[0]] = self.dotted_value(a.name.split('.')[0])
+
+    def s_FunctionDef(self, s, fr):
+        if s.decorator_list:
+            raise Undecided(f'evaluator: decorated nested function {s.name} is not modelled')
+        fr.vars[s.name] = FuncV(self, fr.fi, fr, None, s)
+
+
+class _ModFI:
+    """Stand-in FuncInfo for module-level evaluation (constants, attrs defaults)."""
+
+    def __init__(self, module):
+        self.module = module
+
+
+# ====================================================================================================================
+# Finite model of the domain and the oracles (written from the property text)
+# ====================================================================================================================
+
+_NAMES = ['alpha', 'bravo', 'charlie', 'delta', 'foxtrot', 'golf', 'hotel', 'india', 'juliett', 'kilo']
+
+
+class Domain:
+    def __init__(self, ev):
+        self.ev = ev
+        self.tci = ev.m.cls(TAXON)
+        self.gci = ev.m.cls(GENOME)
+
+    def forest(self, parents, thresholds=None):
+        """parents[i] in (None, 0..i-1).  Returns the list of taxon objects."""
+        taxa = []
+        for i, p in enumerate(parents):
+            t = Rec(self.ev, self.tci, dict(id=11 + i, key=f'key/{_NAMES[i]}', name=_NAMES[i], rank=None, description=None, report=True, ncbi_id=None,
+                                            distance_threshold=None if thresholds is None else thresholds[i], parent=None if p is None else taxa[p], children=[]), False)
+            if p is not None:
+                taxa[p]._f['children'].append(t)
+            taxa.append(t)
+        return taxa
+
+    def genome(self, i, taxon):
+        return Rec(self.ev, self.gci, dict(id=101 + i, key=f'genome/{i}', taxon=taxon, taxon_id=taxon._f['id']), False)
+
+
+def lineage(t):
+    out = []
+    while t is not None:
+        out.append(t)
+        t = t._f['parent']
+    return out
+
+
+def oracle_consensus(taxa):
+    """(consensus, others) for a list of distinct taxa, from the property text."""
+    taxa = list(taxa)
+    if not taxa:
+        return None, set()
+    if len({id(lineage(t)[-1]) for t in taxa}) > 1:
+        return None, set(taxa)                                  # no common ancestor
+    lins = {id(t): lineage(t) for t in taxa}
+    most_specific = [t for t in taxa if not any(o is not t and t in lins[id(o)] for o in taxa)]
+    if len(most_specific) == 1:
+        cons = most_specific[0]                                 # single lineage
+    else:
+        cons = next(a for a in lins[id(most_specific[0])] if all(a in lins[id(o)] for o in most_specific))   # lowest common ancestor
+    below = {t for t in taxa if t is not cons and cons in lins[id(t)]}
+    return cons, below
+
+
+def oracle_match(taxon, d):
+    for t in lineage(taxon):
+        thr = t._f['distance_threshold']
+        if thr is not None and d <= thr:
+            return t
+    return None
+
+
+def _nm(x):
+    if isinstance(x, Rec):
+        return x._f.get('name') or x._f.get('key') or x._ci.name
+    if isinstance(x, (set, frozenset)):
+        return '{' + ', '.join(sorted(_nm(y) for y in x)) + '}'
+    if isinstance(x, (list, tuple)):
+        return '[' + ', '.join(_nm(y) for y in x) + ']'
+    if isinstance(x, dict):
+        return '{' + ', '.join(f'{_nm(k)}: {_nm(v)}' for k, v in x.items()) + '}'
+    return repr(x)
+
+
+def _forest_txt(taxa):
+    return ' '.join(f'{t._f["name"]}<{t._f["parent"]._f["name"] if t._f["parent"] is not None else "-"}' for t in taxa)
+
+
+def canonical_forests(n):
+    """One parent array per isomorphism class of rooted forests with n nodes."""
+    seen, out = set(), []
+    for choice in itertools.product(*[[None] + list(range(i)) for i in range(n)]):
+        kids = {i: [] for i in range(n)}
+        for i, p in enumerate(choice):
+            if p is not None:
+                kids[p].append(i)
+
+        def canon(i):
+            return '(' + ''.join(sorted(canon(k) for k in kids[i])) + ')'
+        key = ''.join(sorted(canon(i) for i, p in enumerate(choice) if p is None))
+        if key not in seen:
+            seen.add(key)
+            out.append(choice)
+    return out
+
+
+def distinct_subsets(parents, k):
+    """k-subsets of the nodes of a forest that contain every leaf (a node that is neither matched nor an ancestor of a matched
+    taxon cannot be reached through `parent`/`ancestors()` and only duplicates a scenario of a smaller forest), one per orbit of
+    the forest's automorphism group."""
+    n = len(parents)
+    kids = {i: [c for c in range(n) if parents[c] == i] for i in range(n)}
+    leaves = {i for i in range(n) if not kids[i]}
+    seen, out = set(), []
+    for sub in itertools.combinations(range(n), k):
+        ss = set(sub)
+        if not leaves <= ss:
+            continue
+
+        def canon(i):
+            return '(' + ('*' if i in ss else '') + ''.join(sorted(canon(c) for c in kids[i])) + ')'
+        key = ''.join(sorted(canon(i) for i in range(n) if parents[i] is None))
+        if key not in seen:
+            seen.add(key)
+            out.append(sub)
+    return out
+
+
+class Tally:
+    """Collects the outcome of the scenarios of one obligation; keeps the first counterexamples."""
+
+    def __init__(self, rule, key, desc, expected):
+        self.rule, self.key, self.desc, self.expected = rule, key, desc, expected
+        self.optional = False     # a clause about an intermediate observation (a call between two anchors) that a restructured body need not have
+        self.n = 0
+        self.bad = []
+
+    def check(self, ok, scenario, found):
+        """scenario / found: text, or a callable producing it (only evaluated for a counterexample that is kept)."""
+        self.n += 1
+        if not ok and len(self.bad) < 3:
+            self.bad.append(f'{scenario() if callable(scenario) else scenario}: {found() if callable(found) else found}')
+        elif not ok:
+            self.bad.append(None)
+        return ok
+
+    def emit(self, rep, fi):
+        bad = [b for b in self.bad if b]
+        if self.n == 0:
+            raise Undecided(f'rule {self.rule}: no scenario evaluated for `{self.key}`')
+        found = f'holds on all {self.n} evaluated scenarios' if not self.bad else f'{len(self.bad)} of {self.n} scenarios differ, e.g. ' + ' | '.join(bad)
+        rep.add(self.rule, fi.site(), self.desc, not self.bad, expected=self.expected, found=found, stmt=self.key, construct=fi.qualname)
+
+
+def _emit_all(rep, fi, tallies):
+    """A clause that no scenario reached because an earlier clause already failed on every scenario is not reported (nothing is
+    known about it); a clause without scenarios on an otherwise clean run is an analysis error."""
+    tallies = list(tallies)
+    failing = any(t.bad for t in tallies)
+    for t in tallies:
+        if t.n == 0 and (failing or t.optional):
+            if t.optional and not failing:
+                rep.info[f'{t.rule} {t.key}'] = 'no instance in this shape of the code; covered by the end-to-end clauses'
+            continue
+        t.emit(rep, fi)
+
+
+def _outcome(res):
+    kind, v = res
+    if kind == 'raise':
+        return f'raises {v.name}({v.exc}) at line {v.line}'
+    return _nm(v) if not isinstance(v, tuple) else '(' + ', '.join(_nm(x) for x in v) + ')'
+
+
+# ====================================================================================================================
+# N2 / N3: the consensus fold, evaluated on every forest x every sequence of distinct taxa
+# ====================================================================================================================
+
+def eval_consensus(ctx, ev, dom, max_nodes=5, max_taxa=4, tag=''):
     rep, m = ctx.rep, ctx.model
     fi = m.func(f'{CL}.consensus_taxon')
     rep.functions.add(fi.qualname)
+    rep.require(len(fi.params()) >= 1, 'consensus_taxon: no parameter for the matched taxa')
+    t_lin = Tally('N2', 'single lineage', 'matched taxa on a single lineage: the consensus is the most specific one, whatever the order they are met in (taxa already on the trunk leave it unchanged, descendants extend it)',
+                  'most specific taxon, every order')
+    t_lca = Tally('N2', 'conflict', 'matched taxa on different branches: the consensus is the lowest common ancestor of the most specific ones for EVERY order (after a conflict a later descendant does not re-specialise it; the nearest meeting point with the trunk is taken)',
+                  'lowest common ancestor of the most specific taxa, every order')
+    t_oth = Tally('N3', 'others', 'the conflicting set = input taxa strictly below the consensus (empty on a single lineage)', 'set of input taxa that are strict descendants of the consensus')
+    t_nca = Tally('N3', 'no common ancestor', 'no common ancestor: no consensus, every input taxon reported', '(None, set(taxa))')
+    t_emp = Tally('N3', 'empty input', 'empty input: no consensus, empty set', '(None, set())')
+    t_itr = Tally('N3', 'materialise', 'the input may be any iterable (a dict key view, a one-shot iterator): it is consumed once', 'same result for a list, a key view and an iterator')
+
+    def judge(res, exp_c, exp_o):
+        kind, v = res
+        if kind != 'ok' or not isinstance(v, (tuple, list)) or len(v) != 2:
+            return False, False
+        c, o = v
+        if not isinstance(o, (set, frozenset)):
+            return c is exp_c, False
+        return c is exp_c, o == exp_o
+
+    for mk in (list, lambda s: dict.fromkeys(s).keys(), iter):
+        res = ev.run(fi, mk([]))
+        okc, oko = judge(res, None, set())
+        (t_emp if mk is list else t_itr).check(okc and oko, 'taxa=[]', _outcome(res))
+    n_eval = 0
+    for n in range(1, max_nodes + 1):
+        for parents in canonical_forests(n):
+            taxa = dom.forest(parents)
+            for k in range(1, min(n, max_taxa) + 1):
+                for sub in distinct_subsets(parents, k):            # one representative per automorphism class of (forest, subset)
+                    for seq in itertools.permutations([taxa[i] for i in sub]):
+                        exp_c, exp_o = oracle_consensus(seq)
+                        res = ev.run(fi, dict.fromkeys(seq).keys())          # the form classify() passes: a key view
+                        n_eval += 1
+                        okc, oko = judge(res, exp_c, exp_o)
+
+                        def sc(taxa=taxa, seq=seq):
+                            return f'forest[{_forest_txt(taxa)}] taxa={_nm(list(seq))}'
+
+                        def found(res=res, exp_c=exp_c, exp_o=exp_o):
+                            return f'{_outcome(res)}, expected ({_nm(exp_c)}, {_nm(exp_o)})'
+                        if exp_c is None:
+                            t_nca.check(okc and oko, sc, found)
+                        else:
+                            (t_lca if exp_o else t_lin).check(okc, sc, found)
+                            if okc or res[0] != 'ok':
+                                t_oth.check(oko, sc, found)
+                        if n <= 3:
+                            for mk in (list, iter):
+                                r2 = ev.run(fi, mk(seq))
+                                a, b = judge(r2, exp_c, exp_o)
+                                t_itr.check(a and b, lambda: sc() + f' as {"list" if mk is list else "iterator"}', lambda: f'{_outcome(r2)}, expected ({_nm(exp_c)}, {_nm(exp_o)})')
+    for t in (t_lin, t_lca, t_oth, t_nca, t_emp, t_itr):
+        t.key += tag
+    _emit_all(rep, fi, (t_lin, t_lca, t_oth, t_nca, t_emp, t_itr))
+    rep.info['consensus_fold_domain' + tag] = f'rooted forests <= {max_nodes} nodes x sets of <= {max_taxa} distinct taxa (one per automorphism class) x all orders: {n_eval} evaluations'
+
+
+# ====================================================================================================================
+# N2 (structural part): the conflict latch, a program-dependence rule on lineage-carrying folds
+# ====================================================================================================================
+
+def _is_own_lineage(v, name):
+    """list(<name>.ancestors(incself=True)) / [*name.ancestors(True)] -> (is own lineage, base text)"""
+    if isinstance(v, ast.Call) and u(v.func) == 'list' and len(v.args) == 1:
+        v = v.args[0]
+    elif isinstance(v, ast.List) and len(v.elts) == 1 and isinstance(v.elts[0], ast.Starred):
+        v = v.elts[0].value
+    if isinstance(v, ast.Call) and isinstance(v.func, ast.Attribute) and v.func.attr == 'ancestors':
+        inc = v.args[0] if v.args else next((k.value for k in v.keywords if k.arg == 'incself'), None)
+        base = u(v.func.value)
+        return (base == name or name is None) and inc is not None and is_const(inc, True), base
+    return False, None
+
+
+def _binds_name(s, name):
+    tg = s.targets if isinstance(s, ast.Assign) else [s.target] if isinstance(s, (ast.AugAssign, ast.AnnAssign)) else []
+    return any(isinstance(x, ast.Name) and x.id == name for t in tg for x in ast.walk(t))
+
+
+def check_latch(ctx):
+    """Applies whenever the fold carries a lineage in a local list; a fold written differently has no instance of this rule and
+    is decided by the exhaustive evaluation alone."""
+    rep, m = ctx.rep, ctx.model
+    fi = m.func(f'{CL}.consensus_taxon')
     fn = fi.node
     gm = guard_map(fn)
-    taxa = fi.params()[0]
-    outer = [s for s in fn.body if isinstance(s, ast.For)]
-    rep.require(len(outer) == 1 and isinstance(outer[0].target, ast.Name), 'consensus_taxon: expected one top-level fold loop')
-    loop = outer[0]
-    tv = loop.target.id
-    # carried lineage: a name assigned before the loop from <taxa[0]>'s own lineage and reassigned inside the loop
-    carried = None
-    for s in fn.body:
-        if s is loop:
-            break
-        if isinstance(s, ast.Assign) and isinstance(s.targets[0], ast.Name):
-            own, base = _is_own_lineage(s.value, None)
-            if own and any(isinstance(x, ast.Assign) and u(x.targets[0]) == s.targets[0].id for x in stmts_in(loop.body)):
-                carried = (s.targets[0].id, s, base)
-    if carried is None:
-        raise Undecided('consensus_taxon: no lineage-carrying fold found (rule N2 has no instance; extend the accepted idioms)')
-    L, linit, base0 = carried
-    rep.add('N2', fi.site(linit), 'the fold starts from the lineage of the first taxon and then folds in the rest', base0 == f'{taxa}[0]' and u(loop.iter) == f'{taxa}[1:]',
-            expected=f'{L} = list({taxa}[0].ancestors(incself=True)); for t in {taxa}[1:]', found=(base0, u(loop.iter)), stmt='fold start')
-    spec, gen, other = [], [], []
-    for s in stmts_in(loop.body):
-        if isinstance(s, ast.Assign) and u(s.targets[0]) == L:
-            own, base = _is_own_lineage(s.value, tv)
-            if own:
-                spec.append(s)
-            elif isinstance(s.value, ast.Subscript) and u(s.value.value) == L and isinstance(s.value.slice, ast.Slice) and s.value.slice.upper is None and s.value.slice.step is None:
-                gen.append(s)
-            else:
-                other.append(s)
-    rep.require(not other, f'consensus_taxon: lineage update outside the vocabulary: {[u(o) for o in other]}')
-    rep.floor('N2', 'generalising updates (trunk = trunk[i:])', len(gen), 1)
-    if not spec:
-        raise Undecided('consensus_taxon: fold never specialises (rule N2 has no instance; extend the accepted idioms)')
-    # candidate latch variables: names tested (as a whole truth value) on the path to every specialising update
-    cands = None
-    for s in spec:
-        at = path_atoms(gm[s])
-        names = {a[1] for a in at if a[0] in ('true', 'false') and a[1].isidentifier()}
-        cands = names if cands is None else cands & names
-    latch = None
-    detail = ''
-    for c in sorted(cands or ()):
-        pol_needed = {a[0] for s in spec for a in path_atoms(gm[s]) if a[1] == c and a[0] in ('true', 'false')}
-        if len(pol_needed) != 1:
-            continue
-        clear_pol = pol_needed.pop()           # specialise only while the flag is in its initial ("no conflict") state
-        init_val = (clear_pol == 'true')
-        set_val = not init_val
-        inits = [s for s in fn.body if isinstance(s, ast.Assign) and u(s.targets[0]) == c and s.lineno < loop.lineno]
-        if not (len(inits) == 1 and is_const(inits[0].value, init_val)):
-            detail = f'{c}: not initialised to {init_val} before the loop'
-            continue
-        in_loop = [s for s in stmts_in(loop.body) if isinstance(s, (ast.Assign, ast.AugAssign)) and any(isinstance(x, ast.Name) and x.id == c for t in (s.targets if isinstance(s, ast.Assign) else [s.target]) for x in ast.walk(t))]
-        if any(not (isinstance(s, ast.Assign) and is_const(s.value, set_val)) for s in in_loop):
-            detail = f'{c}: cleared or recomputed inside the loop'
-            continue
-        # every generalising update has a set of the flag in its own block
-        ok_all = True
-        for g in gen:
-            blk = block_path(fn, g)[-1][0]
-            if not any(s in blk for s in in_loop):
-                ok_all = False
-                detail = f'{c}: generalising update `{u(g)}` does not set it'
-        if ok_all:
-            latch = c
-            break
-    found = f'latch={latch}' if latch else ('no flag guards the specialising update' if not cands else detail)
-    for s in spec:
-        rep.add('N2', fi.site(s), 'after a conflict has generalised the consensus, a later descendant must not re-specialise it: the descend step is guarded by a conflict latch',
-                latch is not None, expected='specialising update under `not <conflict flag>`; flag set wherever the trunk is truncated, never cleared', found=found + f'; guards={sorted(path_atoms(gm[s]))}',
-                stmt=s, construct=fi.qualname)
-    # the specialising update happens only when the incoming taxon descends from the current consensus (meets the trunk at index 0)
-    for s in spec:
-        at = path_atoms(gm[s])
-        idx0 = any(a[0] == 'eq' and '0' in a[1:] for a in at)
-        rep.add('N2', fi.site(s), 'the consensus descends only to a taxon whose lineage meets the trunk at its tip (index 0)', idx0, expected='i == 0', found=sorted(at), stmt='descend guard')
-    # index i is trunk.index(a) for a walking the incoming taxon's strict ancestors bottom-up; first hit taken
-    idx_calls = [c for c in calls_in(loop) if callee_attr(c) == 'index' and u(c.func.value) == L]
-    rep.floor('N2', 'trunk.index() lookups', len(idx_calls), 1)
-    inner = [s for s in stmts_in(loop.body) if isinstance(s, ast.For)]
-    rep.require(len(inner) == 1, 'consensus_taxon: expected one inner ancestor walk')
-    il = inner[0]
-    own, base = _is_own_lineage(il.iter, None)
-    inc = get_arg(il.iter, 0, 'incself') if isinstance(il.iter, ast.Call) else None
-    okw = isinstance(il.iter, ast.Call) and callee_attr(il.iter) == 'ancestors' and u(il.iter.func.value) == tv
-    rep.add('N2', fi.site(il), "the meeting point is searched along the incoming taxon's ancestors, nearest first", okw and [u(a) for a in idx_calls[0].args] == [u(il.target)],
-            expected=f'for a in {tv}.ancestors(...): i = {L}.index(a)', found=(u(il.iter), u(idx_calls[0])), stmt='meeting point search')
-    # after an update the inner walk stops (break) so the nearest meeting point wins
-    for s in spec + gen:
-        blk_path = block_path(fn, s)
-        # find the statement list of the inner loop body and check a break follows on this path
-        body_level = next(((b, i) for (b, i, o) in blk_path if o is il), None)
-        has_break = body_level is not None and any(isinstance(x, ast.Break) for x in body_level[0][body_level[1] + 1:]) or \
-            any(isinstance(x, ast.Break) for x in blk_path[-1][0][blk_path[-1][1] + 1:])
-        rep.add('N2', fi.site(s), 'the ancestor walk stops at the nearest meeting point', has_break, expected='break after the update', found=has_break, stmt=f'break after {u(s)[:30]}')
-    skip = [s for s in loop.body if isinstance(s, ast.If) and atoms(s.test) == {('in', tv, L)} and len(s.body) == 1 and isinstance(s.body[0], ast.Continue)]
-    rep.add('N2', fi.site(skip[0] if skip else loop), 'a taxon already on the trunk leaves the consensus unchanged', len(skip) == 1, expected=f'if {tv} in {L}: continue', found=[u(s)[:40] for s in skip],
-            stmt='on-trunk skip')
-    # N3
-    rets = [s for s in stmts_in(fn.body) if isinstance(s, ast.Return)]
-    final = fn.body[-1]
-    okf = isinstance(final, ast.Return) and isinstance(final.value, ast.Tuple) and len(final.value.elts) == 2 and u(final.value.elts[0]) == f'{L}[0]'
-    rep.add('N3', fi.site(final), 'the consensus is the tip of the final trunk', okf, expected=f'({L}[0], others)', found=u(final)[:60], stmt='consensus result')
-    if okf:
-        ov = final.value.elts[1]
-        od = ov
-        if isinstance(ov, ast.Name):
-            d = reaching_def(fn, ov.id, final)
-            od = def_value(d) if d not in (None, PARAM, AMBIGUOUS) else None
-        oko = isinstance(od, ast.SetComp) and len(od.generators) == 1 and u(od.generators[0].iter) == taxa and len(od.generators[0].ifs) == 1 \
-            and atoms(od.generators[0].ifs[0]) == {('notin', u(od.generators[0].target), L)} and u(od.elt) == u(od.generators[0].target)
-        rep.add('N3', fi.site(final), 'the conflicting set = input taxa that are not on the final trunk (i.e. strictly below the consensus)', oko, expected=f'{{t for t in {taxa} if t not in {L}}}', found=u(od),
-                stmt='others')
-    else_rets = [s for s in rets if s is not final and len(block_path(fn, s)) > 1 and any(o is loop for (_, _, o) in block_path(fn, s))]
-    okn = len(else_rets) == 1 and u(else_rets[0].value) in (f'(None, set({taxa}))',) and else_rets[0] in il.orelse
-    rep.add('N3', fi.site(else_rets[0] if else_rets else loop), 'no common ancestor: no consensus, every input taxon reported', okn, expected=f'for-else: return (None, set({taxa}))', found=[u(r) for r in else_rets],
-            stmt='no common ancestor')
-    empty = [s for s in rets if s is not final and s not in else_rets]
-    oke = len(empty) == 1 and u(empty[0].value) == '(None, set())' and path_atoms(gm[empty[0]]) == {('false', taxa)}
-    rep.add('N3', fi.site(empty[0] if empty else fn), 'empty input: no consensus, empty set', oke, expected=f'if not {taxa}: return (None, set())', found=[u(r) for r in empty], stmt='empty input')
-    rep.account_returns('N3', fi, [final] + else_rets + empty, 'consensus')
-    lst = [s for s in fn.body if isinstance(s, ast.Assign) and u(s.targets[0]) == taxa]
-    rep.add('N3', fi.site(lst[0] if lst else fn), 'the input is materialised once (it is iterated several times)', len(lst) == 1 and u(lst[0].value) == f'list({taxa})' and lst[0].lineno < linit.lineno,
-            expected=f'{taxa} = list({taxa})', found=[u(x) for x in lst], stmt='materialise')
+    loops = [s for s in fn.body if isinstance(s, ast.For) and isinstance(s.target, ast.Name)]
+    instances = 0
+    for loop in loops:
+        tv = loop.target.id
+        for init in fn.body:
+            if init is loop:
+                break
+            if not (isinstance(init, ast.Assign) and isinstance(init.targets[0], ast.Name) and _is_own_lineage(init.value, None)[0]):
+                continue
+            L = init.targets[0].id
+            spec, gen = [], []
+            for s in stmts_in(loop.body):
+                if isinstance(s, ast.Assign) and u(s.targets[0]) == L:
+                    if _is_own_lineage(s.value, tv)[0]:
+                        spec.append(s)
+                    elif isinstance(s.value, ast.Subscript) and u(s.value.value) == L and isinstance(s.value.slice, ast.Slice) and s.value.slice.upper is None and s.value.slice.step is None \
+                            and s.value.slice.lower is not None:
+                        gen.append(s)
+                elif isinstance(s, ast.Delete) and len(s.targets) == 1 and isinstance(s.targets[0], ast.Subscript) and u(s.targets[0].value) == L \
+                        and isinstance(s.targets[0].slice, ast.Slice) and s.targets[0].slice.lower is None and s.targets[0].slice.step is None and s.targets[0].slice.upper is not None:
+                    gen.append(s)       # del trunk[:i]  ==  trunk = trunk[i:] on a list owned by the function
+            if not spec or not gen:
+                continue
+            instances += 1
+            cands = None
+            for s in spec:
+                names = {a[1] for a in path_atoms(gm[s]) if a[0] in ('true', 'false') and a[1].isidentifier()}
+                cands = names if cands is None else cands & names
+            # only names that are assigned somewhere inside the loop or initialised to a bool constant before it can be a latch
+            cands = {c for c in cands if any(_binds_name(s, c) for s in stmts_in(loop.body)) or
+                     any(isinstance(s, ast.Assign) and _binds_name(s, c) and isinstance(s.value, ast.Constant) and isinstance(s.value.value, bool) for s in fn.body)}
+            latch, detail = None, ''
+            for c in sorted(cands):
+                pol = {a[0] for s in spec for a in path_atoms(gm[s]) if a[1] == c and a[0] in ('true', 'false')}
+                if len(pol) != 1:
+                    continue
+                init_val = (pol.pop() == 'true')          # specialise only while the flag is in its initial ("no conflict") state
+                inits = [s for s in fn.body if isinstance(s, ast.Assign) and _binds_name(s, c) and s.lineno < loop.lineno]
+                if not (len(inits) == 1 and is_const(inits[0].value, init_val)):
+                    detail = f'{c}: not initialised to {init_val} before the loop'
+                    continue
+                in_loop = [s for s in stmts_in(loop.body) if _binds_name(s, c)]
+                if any(not (isinstance(s, ast.Assign) and is_const(s.value, not init_val)) for s in in_loop):
+                    detail = f'{c}: cleared or recomputed inside the loop'
+                    continue
+                missing = [g for g in gen if not any(s in block_path(fn, g)[-1][0] for s in in_loop)]
+                if missing:
+                    detail = f'{c}: generalising update `{u(missing[0])}` does not set it'
+                    continue
+                latch = c
+                break
+            for s in spec:
+                if latch is None and not cands:
+                    # no flag-shaped state at all on the path: the second state component, if any, is encoded differently;
+                    # nothing concrete to point at -> this rule has no opinion, the evaluation above decides
+                    rep.info['latch_rule'] = 'no flag-shaped latch recognised; order-independence decided by the exhaustive evaluation only'
+                    continue
+                rep.add('N2', fi.site(s), 'after a conflict has generalised the consensus, a later descendant must not re-specialise it: the descend step is guarded by a conflict latch',
+                        latch is not None, expected='specialising update under `not <conflict flag>`; flag set wherever the trunk is truncated, never cleared',
+                        found=(f'latch={latch}' if latch else detail) + f'; guards={sorted(path_atoms(gm[s]))}', stmt=s, construct=fi.qualname)
+    rep.info['latch_rule_instances'] = instances
 
 
-def check_strict(ctx):
+# ====================================================================================================================
+# N1 / N4 / N5: find_matches and the strict branch of classify(), evaluated on a forest with thresholds
+# ====================================================================================================================
+
+#          alpha      bravo      charlie     delta      foxtrot    golf       hotel
+# parents: -          alpha      bravo       alpha      -          foxtrot    -
+# thr:     0.6        0.4        0.2         0.4        None       0.4        None
+_PARENTS = (None, 0, 1, 0, None, 4, None)
+_THRESH = (0.6, 0.4, 0.2, 0.4, None, 0.4, None)
+# the same forest with thresholds that do NOT widen towards the root (the property allows any thresholds): bravo is wider than its
+# parent alpha, so a genome of charlie at 0.4 / 0.5 matches bravo although it is beyond alpha's threshold
+_THRESH_NM = (0.3, 0.5, 0.2, 0.4, None, 0.4, None)
+# (genome's taxon, distance): every way a genome can match in this forest - its own taxon (below / exactly on the threshold), an
+# ancestor one or two levels up, nothing (beyond every threshold / lineage without thresholds)
+_LETTERS = ((2, 0.1), (2, 0.4), (2, 0.5), (2, 0.7), (1, 0.1), (1, 0.4), (3, 0.1), (3, 0.5), (5, 0.1), (5, 0.5), (6, 0.1))
+_LETTERS3 = ((2, 0.1), (1, 0.4), (3, 0.1), (3, 0.5), (5, 0.1), (6, 0.1))
+
+
+def _scenarios(full_len=2, sub_len=3):
+    out = []
+    for k in range(1, full_len + 1):
+        out += list(itertools.product(_LETTERS, repeat=k))
+    for k in range(full_len + 1, sub_len + 1):
+        out += list(itertools.product(_LETTERS3, repeat=k))
+    return out
+
+
+def _expected(taxa, genomes, dists):
+    matched = [oracle_match(g._f['taxon'], d) for g, d in zip(genomes, dists)]
+    groups = {}
+    for i, t in enumerate(matched):
+        if t is not None:
+            groups.setdefault(t, []).append(i)
+    cons, others = oracle_consensus(list(groups))
+    return matched, groups, cons, others
+
+
+def eval_find_matches(ctx, ev, dom, scenarios, thresh=_THRESH, tag=''):
+    rep, m = ctx.rep, ctx.model
+    fi = m.func(f'{CL}.find_matches')
+    rep.functions.add(fi.qualname)
+    t_rule = Tally('N1', 'match rule', 'each genome matches through the most specific threshold-bearing taxon of its lineage whose threshold covers its distance (unmatched genomes are skipped)',
+                   'keys = matched taxa')
+    t_rec = Tally('N1', 'record', 'the enumerate index of every genome that matched is recorded, once, under its matched taxon', '{matched taxon: [indices of the genomes matched to it]}')
+    for t_ in (t_rule, t_rec):
+        t_.key += tag
+    taxa = dom.forest(_PARENTS, thresh)
+    for sc in [()] + scenarios:
+        genomes = [dom.genome(i, taxa[t]) for i, (t, _) in enumerate(sc)]
+        dists = [d for _, d in sc]
+        matched, groups, _, _ = _expected(taxa, genomes, dists)
+        res = ev.run(fi, zip(genomes, dists))
+        txt = 'pairs=[' + ', '.join(f'{taxa[t]._f["name"]}@{d}' for t, d in sc) + ']'
+        kind, v = res
+        okk = kind == 'ok' and isinstance(v, dict) and set(v) == set(groups)
+        t_rule.check(okk, txt, f'{_outcome(res)}, expected {_nm(groups)}')
+        if okk:
+            t_rec.check(all(isinstance(v[k], list) and sorted(v[k]) == groups[k] for k in groups), txt, f'{_outcome(res)}, expected {_nm(groups)}')
+    _emit_all(rep, fi, (t_rule, t_rec))
+
+
+def eval_classify(ctx, ev, dom, scenarios, thresh=_THRESH, tag=''):
     rep, m = ctx.rep, ctx.model
     fi = m.func(f'{CL}.classify')
     rep.functions.add(fi.qualname)
-    fn = fi.node
-    gm = guard_map(fn)
-    refs, dists = fi.params()[:2]
-    cons_calls = [s for s in fn.body if isinstance(s, ast.Assign) and isinstance(s.value, ast.Call) and m.resolve_call(fi, s.value) == f'{CL}.consensus_taxon']
-    rep.require(len(cons_calls) == 1 and isinstance(cons_calls[0].targets[0], ast.Tuple), 'classify: consensus_taxon result is not unpacked')
-    cs = cons_calls[0]
-    cons, others = (u(e) for e in cs.targets[0].elts)
-    fm = [s for s in fn.body if isinstance(s, ast.Assign) and isinstance(s.value, ast.Call) and m.resolve_call(fi, s.value) == f'{CL}.find_matches']
-    rep.require(len(fm) == 1, 'classify: find_matches result not assigned')
-    matches = u(fm[0].targets[0])
-    rep.add('N4', fi.site(cs), 'the consensus is taken over exactly the matched taxa', [u(a) for a in cs.value.args] in ([f'{matches}.keys()'], [matches], [f'list({matches})']), expected=f'consensus_taxon({matches}.keys())',
-            found=u(cs.value), stmt='consensus input')
-    at_cs = path_atoms(gm[cs])
-    rep.add('N4', fi.site(cs), 'strict processing runs only in strict mode', ('true', 'strict') in at_cs, expected='strict on the path', found=sorted(at_cs), stmt='strict gate')
-    results = [c for c in calls_in(fn) if m.resolve_call(fi, c) == f'{CL}.ClassifierResult']
-    nm = []
-    main = []
-    for c in results:
-        st = next(s for s in stmts_in(fn.body) if any(x is c for x in ast.walk(s)) and isinstance(s, (ast.Return, ast.Assign)))
-        at = path_atoms(gm[st])
-        if ('false', matches) in at:
-            nm.append((c, st))
-        elif ('true', 'strict') in at:
-            main.append((c, st))
-    okn = len(nm) == 1 and isinstance(nm[0][1], ast.Return)
-    if okn:
-        kw = {k.arg: k.value for k in nm[0][0].keywords}
-        okn = is_none(kw.get('predicted_taxon')) and is_none(kw.get('primary_match')) and is_const(kw.get('success'), True) and 'closest_match' in kw
-    rep.add('N4', fi.site(nm[0][1] if nm else fn), 'no match at all: successful result without prediction', okn, expected='return ClassifierResult(success=True, predicted_taxon=None, primary_match=None, ...)',
-            found=[u(c)[:80] for c, _ in nm], stmt='no-match exit')
-    rep.require(len(main) == 1 and isinstance(main[0][1], ast.Assign), 'classify: strict result construction not found')
-    rc, rst = main[0]
-    res = u(rst.targets[0])
-    kw = {k.arg: k.value for k in rc.keywords}
-    rep.add('N4', fi.site(rc), 'the strict prediction is the consensus', u(kw.get('predicted_taxon')) == cons, expected=cons, found=u(kw.get('predicted_taxon')), stmt='strict prediction')
-    pmname = u(kw.get('primary_match'))
-    # warnings / flags
-    warn = [s for s in stmts_in(fn.body) if isinstance(s, ast.Expr) and isinstance(s.value, ast.Call) and u(s.value.func) == f'{res}.warnings.append']
-    incons = [s for s in warn if ('true', others) in path_atoms(gm[s])]
-    base = at_cs | {('true', matches)}
-    okw = len(incons) == 1 and path_atoms(gm[incons[0]]) - base == {('true', others)}
-    rep.add('N4', fi.site(incons[0] if incons else rc), 'the inconsistency warning is issued exactly when some matched taxon lies strictly below the prediction', okw, expected=f'if {others}: warnings.append(...)',
-            found=[(u(s)[:40], sorted(path_atoms(gm[s]) - base)) for s in warn], stmt='inconsistency warning')
-    if incons:
-        blk = block_path(fn, incons[0])[-1][0]
-        names_msg = any(others in u(x) and 'short_repr' in u(x) or (others in u(x) and 'join' in u(x)) for x in blk)
-        rep.add('N4', fi.site(incons[0]), 'the warning names the conflicting taxa', names_msg, expected=f'message built from {others}', found=[u(x)[:60] for x in blk], stmt='warning text')
-    fails = [s for s in stmts_in(fn.body) if isinstance(s, ast.Assign) and u(s.targets[0]) == f'{res}.success']
-    okf = len(fails) == 1 and is_const(fails[0].value, False) and path_atoms(gm[fails[0]]) - base == {('is', 'None', cons)}
-    rep.add('N4', fi.site(fails[0] if fails else rc), 'the result is flagged failed exactly when the matched taxa share no ancestor', okf, expected=f'if {cons} is None: {res}.success = False',
-            found=[(u(s), sorted(path_atoms(gm[s]) - base)) for s in fails], stmt='failure flag')
-    errs = [s for s in stmts_in(fn.body) if isinstance(s, ast.Assign) and u(s.targets[0]) == f'{res}.error']
-    rep.add('N4', fi.site(errs[0] if errs else rc), 'a failed result carries an error message', len(errs) == 1 and fails and block_path(fn, errs[0])[-1][0] is block_path(fn, fails[0])[-1][0], expected='error set with the flag',
-            found=[u(e) for e in errs], stmt='error message')
-    okk = is_const(kw.get('success'), True)
-    rep.add('N4', fi.site(rc), 'otherwise the strict result is successful', okk, expected='success=True', found=u(kw.get('success')), stmt='success default')
-    last = fn.body[-1]
-    rep.account_returns('N4', fi, [s for s in stmts_in(fn.body) if isinstance(s, ast.Return) and (s is last or any(x is c for (c, _) in nm for x in ast.walk(s)) or ('false', 'strict') in path_atoms(gm[s]))], 'strict classification result')
-    rep.add('N4', fi.site(last), 'the strict result object is what is returned', isinstance(last, ast.Return) and u(last.value) == res, expected=f'return {res}', found=u(last), stmt='strict return')
+    params = fi.params()
+    rep.require(len(params) >= 3 and 'strict' in params, 'classify: no `strict` parameter')
+    rci = m.cls(f'{CL}.ClassifierResult')
+    gci = m.cls(f'{CL}.GenomeMatch')
+    T = {k: Tally(r, k, d, e) for (r, k, d, e) in [
+        ('N1', 'pairs', 'strict mode feeds find_matches every (reference genome, its distance) pair, index-aligned and in reference order', 'find_matches(<pairs (ref_genomes[i], dists[i]) for every i>)'),
+        ('N4', 'strict prediction', 'the strict prediction is the consensus of the matched taxa (a result is produced for every valid input)', 'predicted_taxon = consensus'),
+        ('N4', 'no-match exit', 'no match at all: successful result without prediction and without primary match', 'success=True, predicted_taxon=None, primary_match=None'),
+        ('N4', 'inconsistency warning', 'a warning naming the conflicting taxa is issued exactly when some matched taxon lies strictly below the prediction', 'one warning containing the names of exactly those taxa, none otherwise'),
+        ('N4', 'failure flag', 'the result is flagged failed, with an error message, exactly when the matched taxa share no ancestor; otherwise it is successful without error', 'success = (common ancestor exists); error set iff failed'),
+        ('N4', 'strict gate', 'strict processing runs only in strict mode: with strict=False the prediction is the match of the closest genome alone', 'predicted_taxon = matched taxon of the nearest genome'),
+        ('N5', 'primary none', 'no primary match when there is no consensus', 'primary_match=None'),
+        ('N5', 'nearest candidate', 'the primary match is the first nearest genome among those whose matched taxon lies at or below the prediction', 'first minimum of the distances over the candidate genomes'),
+        ('N5', 'primary genome', 'the primary match is built from the reference genome, distance and matched taxon of the winning index', 'GenomeMatch(ref_genomes[best], dists[best], matched taxon of best)'),
+    ]}
+    T['pairs'].optional = True
+    for t_ in T.values():
+        t_.key += tag
+    taxa = dom.forest(_PARENTS, thresh)
+    tnames = [t._f['name'] for t in taxa]
 
-    # N5 primary match
-    pm_defs = [s for s in stmts_in(fn.body) if isinstance(s, ast.Assign) and u(s.targets[0]) == pmname]
-    none_def = [s for s in pm_defs if is_none(s.value)]
-    gm_def = [s for s in pm_defs if isinstance(s.value, ast.Call) and m.resolve_call(fi, s.value) == f'{CL}.GenomeMatch']
-    okp = len(none_def) == 1 and path_atoms(gm[none_def[0]]) - at_cs - {('true', matches)} == {('is', 'None', cons)}
-    rep.add('N5', fi.site(none_def[0] if none_def else rc), 'no primary match when there is no consensus', okp, expected=f'if {cons} is None: primary_match = None', found=[u(s) for s in none_def], stmt='primary none')
-    rep.require(len(gm_def) == 1, 'classify: primary GenomeMatch construction not found')
-    pg = gm_def[0]
-    pkw = {k.arg: k.value for k in pg.value.keywords}
-    outer = [s for s in stmts_in(fn.body) if isinstance(s, ast.For) and isinstance(s.iter, ast.Call) and u(s.iter.func) == f'{matches}.items' and s.lineno < pg.lineno]
-    rep.require(len(outer) == 1 and isinstance(outer[0].target, ast.Tuple), 'classify: primary-match candidate loop not found')
-    ol = outer[0]
-    tx, idxs = (u(e) for e in ol.target.elts)
-    inner = [s for s in stmts_in(ol.body) if isinstance(s, ast.For) and u(s.iter) == idxs]
-    rep.require(len(inner) == 1, 'classify: inner index loop not found')
-    il = inner[0]
-    iv = u(il.target)
-    at_in = path_atoms(gm[il]) - path_atoms(gm[ol])
-    # candidate filter: consensus in taxon.ancestors(incself=True)
-    filt = [a for a in at_in if a[0] == 'in' and a[1] == cons]
-    okfl = len(filt) == 1 and filt[0][2].replace(' ', '') in (f'{tx}.ancestors(incself=True)', f'{tx}.ancestors(True)') and len(at_in) == 1
-    rep.add('N5', fi.site(il), 'candidates are genomes whose matched taxon lies at or below the prediction', okfl, expected=f'{cons} in {tx}.ancestors(incself=True)', found=sorted(at_in), stmt='candidate filter')
-    upd = [s for s in stmts_in(il.body) if isinstance(s, ast.Assign)]
-    upd_at = [path_atoms(gm[s]) - path_atoms(gm[il]) for s in upd]
-    best_i = u(get_arg(pg.value, 0, 'genome').slice) if isinstance(get_arg(pg.value, 0, 'genome'), ast.Subscript) else None
-    best_d = u(pkw.get('distance'))
-    best_t = u(pkw.get('matched_taxon'))
-    vals = {u(s.targets[0]): u(s.value) for s in upd}
-    oku = vals.get(best_i) == iv and vals.get(best_d) == f'{dists}[{iv}]' and vals.get(best_t) == tx and all(a == {('lt', f'{dists}[{iv}]', best_d)} for a in upd_at) and len(upd) == 3
-    rep.add('N5', fi.site(il), 'the nearest candidate is kept: index, distance and taxon updated together under a strict improvement', oku,
-            expected=f'if {dists}[{iv}] < {best_d}: {best_i} = {iv}; {best_d} = {dists}[{iv}]; {best_t} = {tx}', found=(vals, [sorted(a) for a in upd_at]), stmt='nearest update')
-    init = {u(s.targets[0]): u(s.value) for s in stmts_in(fn.body) if isinstance(s, ast.Assign) and u(s.targets[0]) in (best_i, best_d, best_t) and s.lineno < ol.lineno}
-    rep.add('N5', fi.site(ol), 'the search starts from +infinity', init.get(best_d) in ("float('inf')", 'float("inf")', 'np.inf', 'math.inf'), expected="float('inf')", found=init, stmt='nearest init')
-    gsub = get_arg(pg.value, 0, 'genome')
-    rep.add('N5', fi.site(pg), 'the primary match is built from the reference genome at the winning index', isinstance(gsub, ast.Subscript) and u(gsub.value) == refs and u(gsub.slice) == best_i,
-            expected=f'{refs}[{best_i}]', found=u(gsub), stmt='primary genome')
+    def field(r, name):
+        return r._f.get(name, Ellipsis)
 
+    for sc in scenarios:
+        genomes = [dom.genome(i, taxa[t]) for i, (t, _) in enumerate(sc)]
+        dists = [d for _, d in sc]
+        matched, groups, cons, others = _expected(taxa, genomes, dists)
+        txt = 'genomes=[' + ', '.join(f'{taxa[t]._f["name"]}@{d}' for t, d in sc) + ']'
+        fed = []
+
+        def observe(args, fed=fed):
+            if len(args) == 1 and not isinstance(args[0], (Rec, NDArr, FuncV, ClassV, ExtV)):
+                try:
+                    seen = list(args[0])
+                except TypeError:
+                    return args
+                fed.append(seen)
+                return (iter(seen),)
+            return args
+        ev.watch = {f'{CL}.find_matches': observe}
+        res = ev.run(fi, list(genomes), NDArr(dists), strict=True)
+        ev.watch = {}
+        if fed:
+            want = list(zip(genomes, dists))
+            T['pairs'].check(len(fed) == 1 and len(fed[0]) == len(want) and all(isinstance(p, tuple) and len(p) == 2 and p[0] is w[0] and p[1] == w[1] for p, w in zip(fed[0], want)),
+                             txt, lambda: f'find_matches received {[_nm(list(x)) for x in fed]}')
+        kind, r = res
+        good = kind == 'ok' and isinstance(r, Rec) and r._ci is rci
+        if not good:
+            out = _outcome(res)
+            # no result object at all: neither the prediction nor (where one is due) the primary match is delivered
+            (T['no-match exit'] if not groups else T['strict prediction']).check(False, txt, out)
+            if groups and cons is not None:
+                T['nearest candidate'].check(False, txt, out)
+            continue
+        pred, prim, succ, err, warns = (field(r, k) for k in ('predicted_taxon', 'primary_match', 'success', 'error', 'warnings'))
+        summary = f'predicted={_nm(pred)} success={succ!r} primary={_nm(field(prim, "genome")) if isinstance(prim, Rec) else prim!r} warnings={warns!r}'
+        if not groups:
+            T['no-match exit'].check(pred is None and prim is None and succ is True and err is None and not warns, txt, summary)
+            continue
+        okp = T['strict prediction'].check(pred is cons, txt, f'{summary}, expected prediction {_nm(cons)}')
+        T['failure flag'].check(succ is (cons is not None) and (err is None) == (cons is not None) and (err is None or isinstance(err, str)), txt, f'{summary} error={err!r}, expected success={cons is not None}')
+        # warning: identified by naming at least one matched taxon
+        ws = [w for w in (warns if isinstance(warns, (list, tuple)) else []) if isinstance(w, str) and any(n in w for n in tnames)]
+        on = {t._f['name'] for t in others}
+        okw = (len(ws) == 1 and {n for n in tnames if n in ws[0]} == on) if others else not ws
+        T['inconsistency warning'].check(okw and isinstance(warns, list), txt, f'{summary}, expected ' + (f'one warning naming {sorted(on)}' if others else 'no inconsistency warning'))
+        if cons is None:
+            T['primary none'].check(prim is None, txt, summary)
+            continue
+        if not okp:
+            continue
+        lin = {id(t): lineage(t) for t in groups}
+        cand = [i for t, idxs in groups.items() if cons in lin[id(t)] for i in idxs]        # dict order, then index order
+        dmin = min(dists[i] for i in cand)
+        firsts = {next(i for i in cand if dists[i] == dmin), min(i for i in cand if dists[i] == dmin)}
+        okg = isinstance(prim, Rec) and prim._ci is gci
+        got = next((i for i, g in enumerate(genomes) if okg and field(prim, 'genome') is g), None)
+        exp = f'expected genome #{sorted(firsts)} among candidates {cand} (distances {dists})'
+        if T['nearest candidate'].check(got in firsts, txt, f'{summary} (genome #{got}), {exp}'):
+            T['primary genome'].check(field(prim, 'distance') == dists[got] and field(prim, 'matched_taxon') is matched[got], txt,
+                                      f'distance={field(prim, "distance")!r} matched_taxon={_nm(field(prim, "matched_taxon"))}, expected {dists[got]} / {_nm(matched[got])}')
+    for sc in scenarios:
+        if len(sc) > 2:
+            continue
+        genomes = [dom.genome(i, taxa[t]) for i, (t, _) in enumerate(sc)]
+        dists = [d for _, d in sc]
+        res = ev.run(fi, list(genomes), NDArr(dists), strict=False)
+        kind, r = res
+        best = min(range(len(dists)), key=lambda i: dists[i])
+        exp = oracle_match(genomes[best]._f['taxon'], dists[best])
+        txt = 'strict=False genomes=[' + ', '.join(f'{taxa[t]._f["name"]}@{d}' for t, d in sc) + ']'
+        T['strict gate'].check(kind == 'ok' and isinstance(r, Rec) and field(r, 'predicted_taxon') is exp, txt,
+                               (f'predicted={_nm(field(r, "predicted_taxon"))}' if kind == 'ok' and isinstance(r, Rec) else _outcome(res)) + f', expected {_nm(exp)}')
+    _emit_all(rep, fi, T.values())
+
+
+
+def check_match_guards(ctx):
+    """Structural companion of the evaluated N1 clauses (the evaluation is bounded; this is not): inside the loop of find_matches the
+    only thing that may decide whether a genome is recorded is the outcome of the match rule for that genome.  Every statement that
+    ends an iteration early (continue / break / return / raise) and every statement that records an index must be control-dependent
+    only on tests over the match result and the result mapping - a pre-filter, a cut-off, a cache that skips genomes is a violation."""
+    rep, m = ctx.rep, ctx.model
+    fi = m.func(f'{CL}.find_matches')
+    fors = [s for s in fi.node.body if isinstance(s, (ast.For, ast.While))]
+    if len(fors) != 1 or not isinstance(fors[0], ast.For):
+        rep.info['N1 guards'] = 'find_matches is not a single for loop; the guard rule has no instance (the evaluation decides)'
+        return
+    loop = fors[0]
+    loopvars = {n.id for n in ast.walk(loop.target) if isinstance(n, ast.Name)}
+    # names bound (only) from the match rule / the mapping inside the loop, and the mapping itself
+    mapping = {u(s.targets[0]) for s in fi.node.body if isinstance(s, ast.Assign) and len(s.targets) == 1 and isinstance(s.targets[0], ast.Name)
+               and (isinstance(s.value, ast.Dict) or (isinstance(s.value, ast.Call) and u(s.value.func) in ('dict', 'defaultdict', 'collections.defaultdict', 'OrderedDict')))}
+    match_names = set()
+    for s in stmts_in(loop.body):
+        if isinstance(s, ast.Assign) and len(s.targets) == 1 and isinstance(s.targets[0], ast.Name):
+            calls = [c for c in ast.walk(s.value) if isinstance(c, ast.Call)]
+            if any(m.resolve_call(fi, c) == f'{CL}.matching_taxon' for c in calls) or (isinstance(s.value, ast.Attribute) and s.value.attr == 'matched_taxon'):
+                match_names.add(s.targets[0].id)
+    if not match_names:
+        rep.info['N1 guards'] = 'the match result is not bound to a local in find_matches; the guard rule has no instance (the evaluation decides)'
+        return
+    allowed = match_names | mapping | {'None', 'True', 'False'}
+    pm = find_parent_map(fi.node)
+
+    def tests_of(stmt):
+        out = []
+        cur = stmt
+        while cur is not loop and cur in pm:
+            par = pm[cur]
+            if isinstance(par, (ast.If, ast.While)) and cur is not par.test:
+                out.append(par.test)
+            elif isinstance(par, ast.IfExp):
+                out.append(par.test)
+            cur = par
+        return out
+
+    sites = []
+    for s in stmts_in(loop.body):
+        if isinstance(s, (ast.Continue, ast.Break, ast.Return, ast.Raise)):
+            sites.append((s, 'ends the iteration early'))
+        elif isinstance(s, ast.Expr) and isinstance(s.value, ast.Call) and callee_attr(s.value) in ('append', 'add', 'extend', 'insert'):
+            sites.append((s, 'records'))
+        elif isinstance(s, (ast.Assign, ast.AugAssign)) and any(isinstance(t, ast.Subscript) and u(t.value) in mapping for t in (s.targets if isinstance(s, ast.Assign) else [s.target])):
+            sites.append((s, 'records'))
+    # an except handler that skips (continue) is control-dependent on the try body raising: the try body must then only hold the match rule / mapping accesses
+    for s, what in sites:
+        foreign = []
+        for t in tests_of(s):
+            names = {n.id for n in ast.walk(t) if isinstance(n, ast.Name)} - {n.func.id for n in ast.walk(t) if isinstance(n, ast.Call) and isinstance(n.func, ast.Name)}
+            extra = names - allowed
+            if extra:
+                foreign.append((u(t), sorted(extra)))
+        cur = s
+        while cur is not loop and cur in pm:
+            par = pm[cur]
+            if isinstance(par, ast.ExceptHandler):
+                tr = pm[par]
+                tnames = set()
+                for b in tr.body:
+                    tnames |= {n.id for n in ast.walk(b) if isinstance(n, ast.Name) and isinstance(n.ctx, ast.Load)}
+                extra = tnames - allowed - loopvars - {c.func.id for b in tr.body for c in ast.walk(b) if isinstance(c, ast.Call) and isinstance(c.func, ast.Name)}
+                if extra:
+                    foreign.append((f'except after try: {u(tr.body[0])[:60]}', sorted(extra)))
+            cur = par
+        rep.add('N1', fi.site(s), f'find_matches: whether a genome is recorded depends only on the match rule for that genome (the statement that {what} is guarded only by tests over the match result / the result mapping)',
+                not foreign, expected=f'tests over {sorted(match_names | mapping)} only', found=foreign or 'guards over the match result only', stmt=s)
+    rep.floor('N1', 'guarded record / skip statements in find_matches', len(sites), 1)
 
 def check(ctx):
     rep = ctx.rep
-    rep.rule('N1', 'find_matches: enumerate index recorded under matching_taxon(g.taxon, d) when not None; fed zip_strict(ref_genomes, dists)')
-    rep.rule('N2', 'conflict latch on the consensus fold (program-dependence rule); meeting-point search; on-trunk skip')
-    rep.rule('N3', 'others / no-common-ancestor / empty exits')
-    rep.rule('N4', 'strict classify: gates, no-match exit, warning under `others`, failure under `consensus is None`')
-    rep.rule('N5', 'primary match: filter at-or-below consensus, strict-< minimum from +inf, same index')
-    rep.assumptions += ['Necessary conditions only: correctness of the LCA search (trunk.index, suffix slicing) for every forest is a hand argument (DESIGN.md 5/C10).']
-    check_find_matches(ctx)
-    check_consensus(ctx)
-    check_strict(ctx)
+    rep.rule('N1', 'find_matches: enumerate index recorded under matching_taxon(g.taxon, d) when not None; strict mode feeds every (genome, distance) pair (finite-domain evaluation)')
+    rep.rule('N2', 'consensus fold = most specific taxon / lowest common ancestor for every order (exhaustive finite-domain evaluation) + conflict latch (program-dependence rule)')
+    rep.rule('N3', 'others / no-common-ancestor / empty exits / input consumed once (finite-domain evaluation)')
+    rep.rule('N4', 'strict classify: prediction, no-match exit, warning exactly under a non-empty conflicting set, failure exactly without common ancestor (finite-domain evaluation)')
+    rep.rule('N5', 'primary match: none without consensus; first nearest genome at or below the consensus, same index (finite-domain evaluation)')
+    rep.assumptions += ['Finite-domain evaluation: the anchors are interpreted (not executed) on every rooted forest up to 5 nodes x every sequence of up to 4 distinct taxa (6 nodes / 5 taxa in the thorough tier), and on a '
+                        '7-taxon forest with thresholds x every list of up to 2 (a sub-alphabet up to 3) (genome, distance) pairs; behaviour on larger inputs is extrapolated (small-scope argument).',
+                        'Trusted base of the evaluation: Python container semantics, numpy.argmin = first minimum, zip_strict = zip(strict=True), attrs field/default semantics; ORM rows are finite records.']
+    ev = Ev(ctx.model)
+    dom = Domain(ev)
+    eval_consensus(ctx, ev, dom)
+    check_latch(ctx)
+    sc = _scenarios()
+    eval_find_matches(ctx, ev, dom, sc)
+    eval_classify(ctx, ev, dom, sc)
+    eval_find_matches(ctx, ev, dom, sc, thresh=_THRESH_NM, tag=' (thresholds not monotone)')
+    eval_classify(ctx, ev, dom, sc, thresh=_THRESH_NM, tag=' (thresholds not monotone)')
+    check_match_guards(ctx)
+    rep.info['finite_domain_evaluations'] = ev.evaluations
+
+
+def thorough(ctx):
+    ev = Ev(ctx.model)
+    eval_consensus(ctx, ev, Domain(ev), max_nodes=6, max_taxa=5, tag=' (thorough domain)')
+    ctx.rep.info['finite_domain_evaluations_thorough'] = ev.evaluations
 
 
 from ..variants import V  # noqa: E402
 
 _C = 'src/gambit/classify.py'
+
+# ---- the three anchors in other, behaviour-preserving shapes (E) and the same shapes with one realistic bug each (B twins)
+_FOLD_OLD = "\t# Current consensus and ancestors, bottom to top\n\ttrunk = list(taxa[0].ancestors(incself=True))\n\t# Whether taxa seen so far have been found on different branches (consensus is their common ancestor)\n\tconflict = False\n\n\tfor taxon in taxa[1:]:\n\t\t# Taxon in current trunk, nothing to do\n\t\tif taxon in trunk:\n\t\t\tcontinue\n\n\t\t# Find where ancestry of taxon meets current trunk\n\t\tfor a in taxon.ancestors(incself=False):\n\t\t\ttry:\n\t\t\t\ti = trunk.index(a)\n\t\t\texcept ValueError:\n\t\t\t\t# Current ancestor not in trunk, continue to parent\n\t\t\t\tcontinue\n\n\t\t\tif i == 0 and not conflict:\n\t\t\t\t# Directly descended from current consensus, this taxon becomes new consensus\n\t\t\t\ttrunk = list(taxon.ancestors(incself=True))\n\n\t\t\telse:\n\t\t\t\t# Meets the trunk further up (or consensus is already a common ancestor of taxa on\n\t\t\t\t# different branches) - intersection is new consensus\n\t\t\t\ttrunk = trunk[i:]\n\t\t\t\tconflict = True\n\n\t\t\tbreak\n\n\t\telse:\n\t\t\t# No common ancestor exists\n\t\t\treturn (None, set(taxa))\n\n\tothers = {t for t in taxa if t not in trunk}\n\treturn (trunk[0], others)\n"
+
+
+def _fold(rest='tail', walk='taxon.ancestors(incself=False)', notfound='meet is None', gencond='conflict or meet > 0', cut='meet', others='{t for t in taxa if t not in trunk}'):
+    """star-unpacked start, meeting-point search in a helper that returns from inside its loop, guard-clause exit, De Morgan'd
+    branch, in-place truncation, consensus bound to a local"""
+    helper = ("def _meeting_index(trunk, taxon):\n\tfor anc in " + walk + ":\n\t\tif anc in trunk:\n\t\t\treturn trunk.index(anc)\n\treturn None\n\n\ndef consensus_taxon(")
+    body = ("\thead, *tail = taxa\n\ttrunk = list(head.ancestors(incself=True))\n\tconflict = False\n\n\tfor taxon in " + rest + ":\n\t\tif taxon in trunk:\n\t\t\tcontinue\n\n"
+            "\t\tmeet = _meeting_index(trunk, taxon)\n\t\tif " + notfound + ":\n\t\t\treturn (None, set(taxa))\n\n\t\tif " + gencond + ":\n\t\t\tdel trunk[:" + cut + "]\n\t\t\tconflict = True\n"
+            "\t\telse:\n\t\t\ttrunk = list(taxon.ancestors(incself=True))\n\n\tconsensus = trunk[0]\n\tothers = " + others + "\n\treturn (consensus, others)\n")
+    return dict(old=_FOLD_OLD, new=body, also=((_C, "def consensus_taxon(", helper),))
+
+
+_STRICT_OLD = "\t# Find all matches and attempt to get consensus\n\tmatches = find_matches(zip_strict(ref_genomes, dists))\n\tconsensus, others = consensus_taxon(matches.keys())\n\n\t# No matches found\n\tif not matches:\n\t\treturn ClassifierResult(\n\t\t\tsuccess=True,\n\t\t\tpredicted_taxon=None,\n\t\t\tprimary_match=None,\n\t\t\tclosest_match=closest_match,\n\t\t)\n\n\t# Find primary match\n\tif consensus is None:\n\t\tprimary_match = None\n\n\telse:\n\t\tbest_i = None\n\t\tbest_d = float('inf')\n\t\tbest_taxon = None\n\n\t\tfor taxon, idxs in matches.items():\n\t\t\tif consensus not in taxon.ancestors(incself=True):\n\t\t\t\tcontinue\n\n\t\t\tfor i in idxs:\n\t\t\t\tif dists[i] < best_d:\n\t\t\t\t\tbest_i = i\n\t\t\t\t\tbest_d = dists[i]\n\t\t\t\t\tbest_taxon = taxon\n\n\t\tassert best_i is not None\n\t\tprimary_match = GenomeMatch(\n\t\t\tgenome=ref_genomes[best_i],\n\t\t\tdistance=best_d,\n\t\t\tmatched_taxon=best_taxon,\n\t\t)\n\n\tresult = ClassifierResult(\n\t\tsuccess=True,\n\t\tpredicted_taxon=consensus,\n\t\tprimary_match=primary_match,\n\t\tclosest_match=closest_match,\n\t)\n\n\t# Warn of inconsistent matches\n\tif others:\n\t\tmsg = f'Query matched {len(others)} inconsistent taxa: '\n\t\tmsg += ', '.join(sorted(other.short_repr() for other in others))\n\t\tmsg += '. Reporting lowest common ancestor of this set.'\n\t\tresult.warnings.append(msg)\n\n\t# No consensus found - matches do not have common ancestor\n\tif consensus is None:\n\t\tresult.success = False\n\t\tresult.error = 'Matched taxa have no common ancestor.'\n\n\t# Primary match is not closest\n\tif primary_match is not None and primary_match.genome != closest_match.genome:\n\t\tresult.warnings.append('Primary genome match is not closest match.')\n\n\treturn result\n"
+
+
+def _nearest_helper(skip='continue', keep='(i, d, taxon)', better='d < best[1]'):
+    return ("def _nearest_match(ref_genomes, dists, matches, consensus):\n\tbest = None\n\tfor taxon, idxs in matches.items():\n\t\tif consensus not in taxon.ancestors(incself=True):\n\t\t\t" + skip + "\n"
+            "\t\tfor i in idxs:\n\t\t\td = dists[i]\n\t\t\tif best is None or " + better + ":\n\t\t\t\tbest = " + keep + "\n\tassert best is not None\n"
+            "\treturn GenomeMatch(genome=ref_genomes[best[0]], distance=best[1], matched_taxon=best[2])\n\n\ndef classify(")
+
+
+def _strict(failwarn='notes', warncond='others', failcond='consensus is None', **helper):
+    """no-match exit before the consensus call, warnings collected in a local list and passed to the constructor, the failure
+    as an early return with the final field values, primary-match search in a helper (running best as a tuple, no +inf)"""
+    body = ("\tmatches = find_matches(zip_strict(ref_genomes, dists))\n\tif not matches:\n\t\treturn ClassifierResult(success=True, predicted_taxon=None, primary_match=None, closest_match=closest_match)\n\n"
+            "\tconsensus, others = consensus_taxon(matches.keys())\n\tnotes = []\n\tif " + warncond + ":\n\t\tnames = sorted(other.short_repr() for other in others)\n"
+            "\t\tnotes.append(f'Query matched {len(others)} inconsistent taxa: ' + ', '.join(names) + '. Reporting lowest common ancestor of this set.')\n\n"
+            "\tif " + failcond + ":\n\t\treturn ClassifierResult(\n\t\t\tsuccess=False,\n\t\t\tpredicted_taxon=None,\n\t\t\tprimary_match=None,\n\t\t\tclosest_match=closest_match,\n\t\t\twarnings=" + failwarn + ",\n"
+            "\t\t\terror='Matched taxa have no common ancestor.',\n\t\t)\n\n\tprimary_match = _nearest_match(ref_genomes, dists, matches, consensus)\n\tif primary_match.genome != closest_match.genome:\n"
+            "\t\tnotes.append('Primary genome match is not closest match.')\n\n\treturn ClassifierResult(success=True, predicted_taxon=consensus, primary_match=primary_match, closest_match=closest_match, warnings=notes)\n")
+    return dict(old=_STRICT_OLD, new=body, also=((_C, "def classify(", _nearest_helper(**helper)),))
+
+
+_PRIMARY_OLD = _STRICT_OLD[_STRICT_OLD.index("\t# Find primary match\n"):_STRICT_OLD.index("\tresult = ClassifierResult(\n")]
+
+
+def _primary_ifexp(test='consensus is None'):
+    return dict(old=_PRIMARY_OLD, new="\tprimary_match = None if " + test + " else _nearest_match(ref_genomes, dists, matches, consensus)\n\n", also=((_C, "def classify(", _nearest_helper()),))
+
+
+_FM_OLD = "\t\tif match is not None:\n\t\t\tmatches.setdefault(match, []).append(i)\n"
+
+
+def _fm(first='matches[match] = [i]', later='matches[match].append(i)', skip='match is None'):
+    return dict(old=_FM_OLD, new="\t\tif " + skip + ":\n\t\t\tcontinue\n\t\tif match in matches:\n\t\t\t" + later + "\n\t\telse:\n\t\t\t" + first + "\n")
+
+
 VARIANTS = [
     V('latch test dropped (the repaired defect)', 'B', _C, "if i == 0 and not conflict:", "if i == 0:", 'N2'),
     V('latch never set', 'B', _C, "\t\t\t\ttrunk = trunk[i:]\n\t\t\t\tconflict = True\n", "\t\t\t\ttrunk = trunk[i:]\n", 'N2'),
@@ -341,4 +1567,38 @@ VARIANTS = [
     V('E: latch named differently', 'E', _C, "conflict", "diverged", count=3),
     V('E: nested latch test', 'E', _C, "\t\t\tif i == 0 and not conflict:\n\t\t\t\t# Directly descended from current consensus, this taxon becomes new consensus\n\t\t\t\ttrunk = list(taxon.ancestors(incself=True))\n\n\t\t\telse:",
       "\t\t\tif not conflict and i == 0:\n\t\t\t\ttrunk = list(taxon.ancestors(incself=True))\n\n\t\t\telse:"),
+    # single-site mutants that no rule reported before the evaluation (mutation probe)
+    V('latch starts set', 'B', _C, "\tconflict = False\n", "\tconflict = True\n", 'N2'),
+    V('ancestor search gives up at the first ancestor off the trunk', 'B', _C, "\t\t\t\t# Current ancestor not in trunk, continue to parent\n\t\t\t\tcontinue\n", "\t\t\t\tbreak\n", 'N2'),
+    V('primary search stops at the first matched taxon outside the consensus subtree', 'B', _C, "\t\t\tif consensus not in taxon.ancestors(incself=True):\n\t\t\t\tcontinue\n", "\t\t\tif consensus not in taxon.ancestors(incself=True):\n\t\t\t\tbreak\n", 'N5'),
+    V('initial trunk without the first taxon itself', 'B', _C, "trunk = list(taxa[0].ancestors(incself=True))", "trunk = list(taxa[0].ancestors(incself=False))", 'N2'),
+    V('descended trunk without the taxon itself', 'B', _C, "\t\t\t\ttrunk = list(taxon.ancestors(incself=True))\n", "\t\t\t\ttrunk = list(taxon.ancestors(incself=False))\n", 'N2'),
+    V('strict pairs swapped', 'B', _C, "find_matches(zip_strict(ref_genomes, dists))", "find_matches(zip_strict(dists, ref_genomes))", 'N4'),
+    V('primary search asserts the opposite', 'B', _C, "\t\tassert best_i is not None\n", "\t\tassert best_i is None\n", 'N5'),
+    V('E: ancestor walk includes the taxon itself (it is not on the trunk at that point)', 'E', _C, "for a in taxon.ancestors(incself=False):", "for a in taxon.ancestors(incself=True):"),
+    V('E: fold loops over every taxon (the first one is on its own trunk)', 'E', _C, "for taxon in taxa[1:]:", "for taxon in taxa:"),
+    # the fold in another shape, and its broken twins
+    V('E: fold restructured (star-unpack, search helper, guard clause, in-place truncation, local consensus)', 'E', _C, **_fold()),
+    V('restructured fold: second taxon skipped', 'B', _C, expect='N2', **_fold(rest='tail[1:]')),
+    V('restructured fold: helper returns the farthest meeting point', 'B', _C, expect='N2', **_fold(walk='reversed(list(taxon.ancestors(incself=False)))')),
+    V('restructured fold: index 0 taken for "not found"', 'B', _C, expect='N2', **_fold(notfound='not meet')),
+    V('restructured fold: De Morgan slip (and for or)', 'B', _C, expect='N2', **_fold(gencond='conflict and meet > 0')),
+    V('restructured fold: truncation off by one', 'B', _C, expect='N2', **_fold(cut='meet + 1')),
+    V('restructured fold: latch test lost in the rewrite', 'B', _C, expect='N2', **_fold(gencond='meet > 0')),
+    V('restructured fold: others = everything but the consensus', 'B', _C, expect='N3', **_fold(others='{t for t in taxa if t is not consensus}')),
+    # find_matches in another shape
+    V('E: find_matches with guard clause, membership test and first insert', 'E', _C, **_fm()),
+    V('membership form: later genomes overwrite the list', 'B', _C, expect='N1', **_fm(later='matches[match] = [i]')),
+    V('membership form: first genome of a taxon not recorded', 'B', _C, expect='N1', **_fm(first='matches[match] = []')),
+    V('membership form: guard inverted', 'B', _C, expect='N1', **_fm(skip='match is not None')),
+    # the strict branch of classify() in another shape
+    V('E: strict branch with early returns, warnings passed to the constructor, search helper', 'E', _C, **_strict()),
+    V('early-return form: failure result drops the collected warning', 'B', _C, expect='N4', **_strict(failwarn='[]')),
+    V('early-return form: warning under the wrong condition', 'B', _C, expect='N4', **_strict(warncond='consensus is None')),
+    V('early-return form: failure exit under `others`', 'B', _C, expect='N4', **_strict(failcond='others')),
+    V('search helper: taxon of the match replaced by the consensus', 'B', _C, expect='N5', **_strict(keep='(i, d, consensus)')),
+    V('search helper: last nearest wins', 'B', _C, expect='N5', **_strict(better='d <= best[1]')),
+    V('search helper: stops at the first taxon outside the subtree', 'B', _C, expect='N5', **_strict(skip='break')),
+    V('E: primary match as a conditional expression over a helper', 'E', _C, **_primary_ifexp()),
+    V('conditional expression: arms swapped', 'B', _C, expect='N5', **_primary_ifexp('consensus is not None')),
 ]
